@@ -1,19 +1,21 @@
 (* ModedProofs.v - the stack discipline of compiled code, for ALL well-moded
    scripts (Spec/Moded.v): every body the compiler produces for a well-moded
    syntax tree (the main body and every function in the table) carries an
-   annotation - a lower bound on the stack depth at every instruction start,
-   0 at the entry - that the byte-code verifier's final `check` accepts.
+   annotation - at every instruction start a lower bound on the stack depth
+   and, for every foreach loop open there, a lower bound on the stack height
+   that loop remembered; (0, []) at the entry - that the byte-code verifier's
+   final `check` accepts.
    Consequences: a compiled call-free body never ends in the machine's
    internal error (through VerifierProofs.sound_gen); with calls, the same
    holds for every run in which each executed call pushed a value
    (`calls_push`), which is the verifier's stated assumption about calls.
    Complete proofs only; no axioms.
 
-   Structure: (1) annotated segments `aseg`: a code fragment, the depth at
-   its entry, a lower bound of the depth at its fall-through exit, and the
-   depth carried to other exits; composition; (2) the instructions; (3) the
-   control constructs at the level of code; (4) the same at the level of
-   compiler states (emission / back-patching as in StructProofs.v);
+   Structure: (1) annotated segments `aseg`: a code fragment, the abstract
+   state at its entry, a lower bound of the state at its fall-through exit,
+   and the states carried to other exits; composition; (2) the instructions;
+   (3) the control constructs at the level of code; (4) the same at the level
+   of compiler states (emission / back-patching as in StructProofs.v);
    (5) induction on the compiler's fuel; (6) from segments to `check`;
    (7) the theorems. *)
 From Coq Require Import Floats Lia Permutation.
@@ -31,16 +33,67 @@ Local Ltac pos := lenN_norm; lia.
 Local Ltac leq := repeat (progress (rewrite <- ?app_assoc; cbn [app])); reflexivity.
 
 (* ------------------------------------------------------------------ *)
+(* PART 0: the order on abstract states *)
+
+Definition sle (s t : astate) : Prop := state_le s t = true.
+
+Lemma marks_le_refl : forall ms, marks_le ms ms = true.
+Proof. induction ms as [|m ms IH]; [reflexivity|]. cbn [marks_le]. rewrite N.leb_refl, IH. reflexivity. Qed.
+
+Lemma marks_le_trans : forall a b c, marks_le a b = true -> marks_le b c = true -> marks_le a c = true.
+Proof.
+  induction a as [|x a IH]; intros [|y b] [|z c] H1 H2; try discriminate; [reflexivity|].
+  cbn [marks_le] in *. apply andb_true_iff in H1. apply andb_true_iff in H2.
+  destruct H1 as (A1 & B1). destruct H2 as (A2 & B2). apply N.leb_le in A1. apply N.leb_le in A2.
+  apply andb_true_iff. split; [apply N.leb_le; lia|eapply IH; eassumption].
+Qed.
+
+Lemma sle_refl : forall s, sle s s.
+Proof. intros [d ms]. unfold sle, state_le. cbn [fst snd]. rewrite N.leb_refl, marks_le_refl. reflexivity. Qed.
+
+Lemma sle_trans : forall a b c, sle a b -> sle b c -> sle a c.
+Proof.
+  intros [d1 m1] [d2 m2] [d3 m3]. unfold sle, state_le. cbn [fst snd]. intros H1 H2.
+  apply andb_true_iff in H1. apply andb_true_iff in H2. destruct H1 as (A1 & B1). destruct H2 as (A2 & B2).
+  apply N.leb_le in A1. apply N.leb_le in A2.
+  apply andb_true_iff. split; [apply N.leb_le; lia|eapply marks_le_trans; eassumption].
+Qed.
+
+Lemma sle_pair : forall d d' ms, d <= d' -> sle (d, ms) (d', ms).
+Proof.
+  intros d d' ms H. unfold sle, state_le. cbn [fst snd]. apply N.leb_le in H. rewrite H, marks_le_refl. reflexivity.
+Qed.
+
+Lemma sle_depth : forall d d' ms ms', sle (d, ms) (d', ms') -> d <= d'.
+Proof.
+  intros d d' ms ms' H. unfold sle, state_le in H. cbn [fst snd] in H. apply andb_true_iff in H.
+  apply N.leb_le. apply H.
+Qed.
+
+Local Ltac sl := first [ assumption | apply sle_refl | apply sle_pair; lia ].
+
+(* ------------------------------------------------------------------ *)
 (* PART 1: annotated segments *)
 
-Definition epred := N -> N -> Prop.       (* target, depth carried to it *)
+Definition epred := N -> astate -> Prop.       (* target, abstract state carried to it *)
 Definition noX : epred := fun _ _ => False.
 
-Definition iflow (f : N -> N) (P : epred) (i : instr) (next : option instr) : Prop :=
-  pops i <= f (iip i) /\
-  exists es, edges i next (f (iip i)) = Some es /\ Forall (fun e => P (fst e) (snd e)) es.
+(* annotations are partial: the JumpIfFalse that follows an IterationNext has none *)
+Definition pann := N -> option astate.
+Definition fle (f : pann) (t : N) (n : astate) : Prop := exists s, f t = Some s /\ sle s n.
 
-Fixpoint flows (f : N -> N) (P : epred) (is : list instr) : Prop :=
+Lemma fle_trans : forall f t n n', fle f t n -> sle n n' -> fle f t n'.
+Proof. intros f t n n' (s & E & L) H. exists s. split; [exact E|eapply sle_trans; eassumption]. Qed.
+
+Definition iflow (f : pann) (P : epred) (i : instr) (next : option instr) : Prop :=
+  match f (iip i) with
+  | None => True
+  | Some s =>
+      pops i <= fst s /\
+      exists es, edges i next s = Some es /\ Forall (fun e => P (fst e) (snd e)) es
+  end.
+
+Fixpoint flows (f : pann) (P : epred) (is : list instr) : Prop :=
   match is with
   | [] => True
   | i :: rest => iflow f P i (VP.nexti rest) /\ flows f P rest
@@ -48,14 +101,16 @@ Fixpoint flows (f : N -> N) (P : epred) (is : list instr) : Prop :=
 
 Lemma edges_next : forall i nx d es, edges i None d = Some es -> edges i nx d = Some es.
 Proof.
-  intros i nx d es. unfold edges.
+  intros i nx [d ms] es. unfold edges.
   destruct (iop i =? OpReturn); [auto|]. destruct (iop i =? OpJump); [auto|].
-  destruct (iop i =? OpJumpIfFalse); [auto|]. destruct (iop i =? OpIterationNext); [discriminate|auto].
+  destruct (iop i =? OpJumpIfFalse); [auto|]. destruct (iop i =? OpIterationReset); [auto|].
+  destruct (iop i =? OpIterationNext); [discriminate|auto].
 Qed.
 
 Lemma iflow_next : forall f P i rest b, iflow f P i (VP.nexti rest) -> iflow f P i (VP.nexti (rest ++ b)).
 Proof.
   intros f P i rest b H. destruct rest as [|j rest]; [|exact H].
+  unfold iflow in *. destruct (f (iip i)) as [s|]; [|exact I].
   destruct H as (Hp & es & He & Hf). split; [exact Hp|]. exists es. split; [|exact Hf].
   apply edges_next. exact He.
 Qed.
@@ -71,23 +126,24 @@ Lemma flows_weaken : forall f g (P Q : epred) is,
   flows f P is -> flows g Q is.
 Proof.
   intros f g P Q is. induction is as [|i is IH]; intros Hfg HPQ H; [exact I|].
-  cbn [flows] in *. destruct H as ((Hp & es & He & Hf) & H). split.
-  - unfold iflow. rewrite <- (Hfg i (or_introl eq_refl)). split; [exact Hp|]. exists es. split; [exact He|].
+  cbn [flows] in *. destruct H as (Hi & H). split.
+  - unfold iflow in *. rewrite <- (Hfg i (or_introl eq_refl)). destruct (f (iip i)) as [s|]; [|exact I].
+    destruct Hi as (Hp & es & He & Hf). split; [exact Hp|]. exists es. split; [exact He|].
     eapply Forall_impl; [|exact Hf]. intros e. apply HPQ.
   - apply IH; [intros j Hj; apply Hfg; right; exact Hj|exact HPQ|exact H].
 Qed.
 
 (* where control may go from inside a segment: an instruction start of the segment
    (bounded by its annotation), the fall-through exit, or another permitted exit *)
-Definition segP (f : N -> N) (is : list instr) (hi dout : N) (X : epred) : epred :=
-  fun t n => (st is t /\ f t <= n) \/ (t = hi /\ dout <= n) \/ X t n.
+Definition segP (f : pann) (is : list instr) (hi : N) (dout : astate) (X : epred) : epred :=
+  fun t n => (st is t /\ fle f t n) \/ (t = hi /\ sle dout n) \/ X t n.
 
-Definition entry (f : N -> N) (is : list instr) (base d dout : N) : Prop :=
-  match is with [] => dout <= d | _ :: _ => f base <= d end.
+Definition entry (f : pann) (is : list instr) (base : N) (d dout : astate) : Prop :=
+  match is with [] => sle dout d | _ :: _ => fle f base d end.
 
-(* the fragment `ch` placed at `base`, entered with at least d values, leaves at least dout values
-   when it falls through, and satisfies X on every other edge that leaves it *)
-Definition aseg (base : N) (ch : list N) (d dout : N) (X : epred) : Prop :=
+(* the fragment `ch` placed at `base`, entered in a state above d, falls through in a state above dout,
+   and satisfies X on every other edge that leaves it *)
+Definition aseg (base : N) (ch : list N) (d dout : astate) (X : epred) : Prop :=
   exists is f, dec ch base is /\ entry f is base d dout /\
                flows f (segP f is (base + lenN ch) dout X) is.
 
@@ -100,25 +156,27 @@ Proof. intros ch base is H Hne E. subst is. apply dec_nil_inv in H. contradictio
 Lemma aseg_at : forall base base' ch d dout X, aseg base ch d dout X -> base = base' -> aseg base' ch d dout X.
 Proof. intros. subst. assumption. Qed.
 
-Lemma aseg_nil : forall base d dout X, dout <= d -> aseg base [] d dout X.
+Lemma aseg_nil : forall base d dout X, sle dout d -> aseg base [] d dout X.
 Proof.
-  intros base d dout X H. exists [], (fun _ => 0). split; [apply dec_nil|split; [exact H|exact I]].
+  intros base d dout X H. exists [], (fun _ => None). split; [apply dec_nil|split; [exact H|exact I]].
 Qed.
 
 Lemma aseg_weaken : forall base ch d d' dout dout' (X X' : epred),
-  aseg base ch d dout X -> d <= d' -> dout' <= dout -> (forall t n, X t n -> X' t n) ->
+  aseg base ch d dout X -> sle d d' -> sle dout' dout -> (forall t n, X t n -> X' t n) ->
   aseg base ch d' dout' X'.
 Proof.
   intros base ch d d' dout dout' X X' (is & f & D & En & F) Hd Ho HX.
   exists is, f. split; [exact D|split].
-  - destruct is; cbn [entry] in *; lia.
+  - destruct is; cbn [entry] in *; [eapply sle_trans; [exact Ho|eapply sle_trans; eassumption]|
+                                     eapply fle_trans; eassumption].
   - eapply flows_weaken; [reflexivity| |exact F].
-    intros t n [H|[[H1 H2]|H]]; [left; exact H|right; left; split; [exact H1|lia]|right; right; apply HX; exact H].
+    intros t n [H|[[H1 H2]|H]]; [left; exact H|right; left; split; [exact H1|eapply sle_trans; eassumption]|
+                                 right; right; apply HX; exact H].
 Qed.
 
 Lemma aseg_app : forall base A B d d1 d2 (X1 X2 X : epred),
   aseg base A d d1 X1 -> aseg (base + lenN A) B d1 d2 X2 ->
-  (forall t n, X1 t n -> X t n \/ (t = base + lenN A /\ d1 <= n)) ->
+  (forall t n, X1 t n -> X t n \/ (t = base + lenN A /\ sle d1 n)) ->
   (forall t n, X2 t n -> X t n) ->
   aseg base (A ++ B) d d2 X.
 Proof.
@@ -134,35 +192,40 @@ Proof.
   { intros i Hi. unfold f. apply R1 in Hi. apply N.ltb_lt in Hi. rewrite Hi. reflexivity. }
   assert (A2 : forall i, In i is2 -> f2 (iip i) = f (iip i)).
   { intros i Hi. unfold f. apply R2 in Hi. apply N.ltb_ge in Hi. rewrite Hi. reflexivity. }
+  assert (A1' : forall t n, st is1 t -> fle f1 t n -> fle f t n).
+  { intros t n (i & Hi & Ei) H. unfold fle in *. rewrite <- Ei, <- (A1 i Hi), Ei. exact H. }
+  assert (A2' : forall t n, st is2 t -> fle f2 t n -> fle f t n).
+  { intros t n (i & Hi & Ei) H. unfold fle in *. rewrite <- Ei, <- (A2 i Hi), Ei. exact H. }
   set (P := segP f (is1 ++ is2) (base + lenN (A ++ B)) d2 X).
-  assert (K : forall n, d1 <= n -> P mid n).
+  assert (K : forall n, sle d1 n -> P mid n).
   { intros n Hn. unfold P, segP. destruct is2 as [|j is2'].
     - apply dec_nil_inv in D2. subst B. cbn [entry] in En2. right; left.
-      split; [rewrite Hhi, lenN_nil; lia|lia].
-    - cbn [entry] in En2. left. split.
-      + apply st_app_iff. right. destruct (dec_base _ _ _ D2) as [Hs|[_ E]]; [exact Hs|discriminate].
-      + destruct (dec_base _ _ _ D2) as [(i & Hi & Ei)|[_ E]]; [|discriminate].
-        rewrite <- Ei, <- (A2 i Hi), Ei. lia. }
+      split; [rewrite Hhi, lenN_nil; lia|eapply sle_trans; eassumption].
+    - cbn [entry] in En2. left.
+      assert (Hs : st (j :: is2') mid) by (destruct (dec_base _ _ _ D2) as [Hs|[_ E]]; [exact Hs|discriminate]).
+      split.
+      + apply st_app_iff. right. exact Hs.
+      + apply A2'; [exact Hs|]. eapply fle_trans; eassumption. }
   assert (I1 : forall t n, segP f1 is1 mid d1 X1 t n -> P t n).
-  { intros t n [[(i & Hi & Ei) Hle]|[[Et Hle]|HX]].
-    - left. split; [apply st_app_iff; left; exists i; auto|]. rewrite <- Ei, <- (A1 i Hi), Ei. exact Hle.
+  { intros t n [[Hs Hle]|[[Et Hle]|HX]].
+    - left. split; [apply st_app_iff; left; exact Hs|]. apply A1'; assumption.
     - subst t. apply K. exact Hle.
     - destruct (HX1 t n HX) as [H|[Et Hle]]; [right; right; exact H|subst t; apply K; exact Hle]. }
   assert (I2 : forall t n, segP f2 is2 (mid + lenN B) d2 X2 t n -> P t n).
-  { intros t n [[(i & Hi & Ei) Hle]|[[Et Hle]|HX]].
-    - left. split; [apply st_app_iff; right; exists i; auto|]. rewrite <- Ei, <- (A2 i Hi), Ei. exact Hle.
+  { intros t n [[Hs Hle]|[[Et Hle]|HX]].
+    - left. split; [apply st_app_iff; right; exact Hs|]. apply A2'; assumption.
     - right; left. split; [rewrite Hhi; exact Et|exact Hle].
     - right; right. apply HX2. exact HX. }
   exists (is1 ++ is2), f. split; [eapply dec_app'; [exact D1|exact D2|reflexivity]|split].
   - destruct is1 as [|i is1'].
     + apply dec_nil_inv in D1. subst A. cbn [app entry] in *.
       assert (Em : mid = base) by (unfold mid; rewrite lenN_nil; lia).
-      destruct is2 as [|j is2']; cbn [entry] in *; [lia|].
-      destruct (dec_base _ _ _ D2) as [(k & Hk & Ek)|[_ E]]; [|discriminate].
-      rewrite Em in *. rewrite <- Ek, <- (A2 k Hk), Ek. lia.
+      destruct is2 as [|j is2']; cbn [entry] in *; [eapply sle_trans; eassumption|].
+      assert (Hs : st (j :: is2') mid) by (destruct (dec_base _ _ _ D2) as [Hs|[_ E]]; [exact Hs|discriminate]).
+      rewrite <- Em. apply A2'; [exact Hs|]. eapply fle_trans; eassumption.
     + cbn [app entry] in *.
-      destruct (dec_base _ _ _ D1) as [(k & Hk & Ek)|[_ E]]; [|discriminate].
-      rewrite <- Ek, <- (A1 k Hk), Ek. exact En1.
+      assert (Hs : st (i :: is1') base) by (destruct (dec_base _ _ _ D1) as [Hs|[_ E]]; [exact Hs|discriminate]).
+      apply A1'; assumption.
   - apply flows_app.
     + eapply flows_weaken; [exact A1|exact I1|exact F1].
     + eapply flows_weaken; [exact A2|exact I2|exact F2].
@@ -170,7 +233,7 @@ Qed.
 
 (* edges back to the entry of a (non-empty) segment are internal *)
 Lemma aseg_close : forall base ch d dout (X : epred), ch <> [] ->
-  aseg base ch d dout (fun t n => X t n \/ (t = base /\ d <= n)) -> aseg base ch d dout X.
+  aseg base ch d dout (fun t n => X t n \/ (t = base /\ sle d n)) -> aseg base ch d dout X.
 Proof.
   intros base ch d dout X Hne (is & f & D & En & F).
   pose proof (dec_nonempty _ _ _ D Hne) as Hi.
@@ -179,12 +242,12 @@ Proof.
   intros t n [H|[H|[H|[Et Hle]]]]; [left; exact H|right; left; exact H|right; right; exact H|].
   left. subst t. split.
   - destruct (dec_base _ _ _ D) as [Hs|[_ E]]; [exact Hs|contradiction].
-  - destruct is; [contradiction|]. cbn [entry] in En. lia.
+  - destruct is; [contradiction|]. cbn [entry] in En. eapply fle_trans; eassumption.
 Qed.
 
 (* an exit to the end of the segment is its fall-through exit *)
 Lemma aseg_absorb : forall base ch d dout (X : epred),
-  aseg base ch d dout (fun t n => X t n \/ (t = base + lenN ch /\ dout <= n)) -> aseg base ch d dout X.
+  aseg base ch d dout (fun t n => X t n \/ (t = base + lenN ch /\ sle dout n)) -> aseg base ch d dout X.
 Proof.
   intros base ch d dout X (is & f & D & En & F).
   exists is, f. split; [exact D|split; [exact En|]].
@@ -195,38 +258,52 @@ Qed.
 (* ------------------------------------------------------------------ *)
 (* PART 2: the instructions *)
 
-Definition ctl (op : N) : bool := memN op [OpReturn; OpJump; OpJumpIfFalse; OpIterationNext].
+(* the instructions with more than the one plain edge, or that open a loop *)
+Definition ctl (op : N) : bool := memN op [OpReturn; OpJump; OpJumpIfFalse; OpIterationNext; OpIterationReset].
 
-Lemma edges_plain : forall i nx d, ctl (iop i) = false ->
-  edges i nx d = Some [(iip i + ilen i, d - pops i + pushes i)].
+Lemma edges_plain : forall i nx d ms, ctl (iop i) = false ->
+  edges i nx (d, ms) = Some [(iip i + ilen i, (d - pops i + pushes i, ms))].
 Proof.
-  intros i nx d H. unfold ctl in H. cbn [memN] in H.
+  intros i nx d ms H. unfold ctl in H. cbn [memN] in H.
   apply orb_false_iff in H. destruct H as (H1 & H).
   apply orb_false_iff in H. destruct H as (H2 & H).
   apply orb_false_iff in H. destruct H as (H3 & H).
-  apply orb_false_iff in H. destruct H as (H4 & _).
-  unfold edges. rewrite H1, H2, H3, H4. reflexivity.
+  apply orb_false_iff in H. destruct H as (H4 & H).
+  apply orb_false_iff in H. destruct H as (H5 & _).
+  unfold edges. rewrite H1, H2, H3, H4, H5. reflexivity.
 Qed.
 
-Lemma aseg_instr : forall base ch i d dout (X : epred),
+(* a segment of one annotated instruction *)
+Lemma aseg_one : forall base ch i (s dout : astate) (X : epred) es,
+  dec ch base [i] -> iip i = base -> pops i <= fst s -> edges i None s = Some es ->
+  Forall (fun e => (fst e = base + lenN ch /\ sle dout (snd e)) \/ X (fst e) (snd e)) es ->
+  aseg base ch s dout X.
+Proof.
+  intros base ch i s dout X es D Hip Hp He Hes.
+  exists [i], (fun _ => Some s). split; [exact D|split].
+  - cbn [entry]. exists s. split; [reflexivity|apply sle_refl].
+  - cbn [flows]. split; [|exact I]. unfold iflow. split; [exact Hp|].
+    exists es. split; [exact He|]. eapply Forall_impl; [|exact Hes].
+    intros e [H|H]; [right; left; exact H|right; right; exact H].
+Qed.
+
+Lemma aseg_instr : forall ms base ch i d dout (X : epred),
   dec ch base [i] -> iip i = base -> base + ilen i = base + lenN ch ->
   ctl (iop i) = false -> pops i <= d -> dout <= d - pops i + pushes i ->
-  aseg base ch d dout X.
+  aseg base ch (d, ms) (dout, ms) X.
 Proof.
-  intros base ch i d dout X D Hip Hl Hc Hp Ho.
-  exists [i], (fun _ => d). split; [exact D|split; [cbn [entry]; lia|]].
-  cbn [flows]. split; [|exact I]. split; [exact Hp|].
-  eexists. split; [apply edges_plain; exact Hc|]. constructor; [|constructor].
-  cbn [fst snd]. right; left. split; [rewrite Hip; exact Hl|exact Ho].
+  intros ms base ch i d dout X D Hip Hl Hc Hp Ho.
+  eapply aseg_one; [exact D|exact Hip|exact Hp|apply edges_plain; exact Hc|].
+  constructor; [|constructor]. cbn [fst snd]. left. split; [rewrite Hip; exact Hl|apply sle_pair; exact Ho].
 Qed.
 
-Lemma aseg_op1 : forall base op d dout p q (X : epred),
+Lemma aseg_op1 : forall ms base op d dout p q (X : epred),
   memN op known_ops = true -> op_len op = 1 -> ctl op = false ->
   pops (mkI 0 op 0 1) = p -> pushes (mkI 0 op 0 1) = q -> p <= d -> dout <= d - p + q ->
-  aseg base [op] d dout X.
+  aseg base [op] (d, ms) (dout, ms) X.
 Proof.
-  intros base op d dout p q X Hk Hl Hc Hp Hq Hle Ho.
-  apply (aseg_instr base [op] (mkI base op 0 1)); try assumption.
+  intros ms base op d dout p q X Hk Hl Hc Hp Hq Hle Ho.
+  apply (aseg_instr ms base [op] (mkI base op 0 1)); try assumption.
   - apply dec_one1; assumption.
   - reflexivity.
   - reflexivity.
@@ -235,13 +312,13 @@ Proof.
     change (pushes (mkI base op 0 1)) with (pushes (mkI 0 op 0 1)). lia.
 Qed.
 
-Lemma aseg_op3 : forall base op h l d dout p q (X : epred),
+Lemma aseg_op3 : forall ms base op h l d dout p q (X : epred),
   memN op known_ops = true -> op_len op = 3 -> ctl op = false ->
   pops (mkI 0 op (h * 256 + l) 3) = p -> pushes (mkI 0 op 0 1) = q -> p <= d -> dout <= d - p + q ->
-  aseg base [op; h; l] d dout X.
+  aseg base [op; h; l] (d, ms) (dout, ms) X.
 Proof.
-  intros base op h l d dout p q X Hk Hl Hc Hp Hq Hle Ho.
-  apply (aseg_instr base [op; h; l] (mkI base op (h * 256 + l) 3)); try assumption.
+  intros ms base op h l d dout p q X Hk Hl Hc Hp Hq Hle Ho.
+  apply (aseg_instr ms base [op; h; l] (mkI base op (h * 256 + l) 3)); try assumption.
   - apply dec_one3; assumption.
   - reflexivity.
   - reflexivity.
@@ -250,76 +327,84 @@ Proof.
     change (pushes (mkI base op (h * 256 + l) 3)) with (pushes (mkI 0 op 0 1)). lia.
 Qed.
 
-Lemma aseg_jump : forall base T d dout (X : epred), T < 65536 -> X T d ->
-  aseg base [OpJump; hi_byte T; lo_byte T] d dout X.
+Lemma aseg_jump : forall ms base T d dout (X : epred), T < 65536 -> X T (d, ms) ->
+  aseg base [OpJump; hi_byte T; lo_byte T] (d, ms) dout X.
 Proof.
-  intros base T d dout X HT HX.
-  exists [mkI base OpJump (hi_byte T * 256 + lo_byte T) 3], (fun _ => d).
-  split; [apply dec_one3; reflexivity|split; [cbn [entry]; lia|]].
-  cbn [flows]. split; [|exact I]. split; [change (0 <= d); lia|].
-  eexists. split; [reflexivity|]. constructor; [|constructor].
+  intros ms base T d dout X HT HX.
+  eapply (aseg_one base _ (mkI base OpJump (hi_byte T * 256 + lo_byte T) 3));
+    [apply dec_one3; reflexivity|reflexivity|change (0 <= d); lia|reflexivity|].
+  constructor; [|constructor].
   change (pops (mkI base OpJump (hi_byte T * 256 + lo_byte T) 3)) with 0.
   change (pushes (mkI base OpJump (hi_byte T * 256 + lo_byte T) 3)) with 0.
-  cbn [fst snd iarg]. rewrite hi_lo by exact HT. right; right.
+  cbn [fst snd iarg]. rewrite hi_lo by exact HT. right.
   replace (d - 0 + 0) with d by lia. exact HX.
 Qed.
 
-Lemma aseg_jif : forall base T d dout (X : epred), T < 65536 -> 1 <= d -> dout <= d - 1 -> X T (d - 1) ->
-  aseg base [OpJumpIfFalse; hi_byte T; lo_byte T] d dout X.
+Lemma aseg_jif : forall ms base T d dout (X : epred), T < 65536 -> 1 <= d -> dout <= d - 1 -> X T (d - 1, ms) ->
+  aseg base [OpJumpIfFalse; hi_byte T; lo_byte T] (d, ms) (dout, ms) X.
 Proof.
-  intros base T d dout X HT Hd Ho HX.
-  exists [mkI base OpJumpIfFalse (hi_byte T * 256 + lo_byte T) 3], (fun _ => d).
-  split; [apply dec_one3; reflexivity|split; [cbn [entry]; lia|]].
-  cbn [flows]. split; [|exact I]. split; [change (1 <= d); exact Hd|].
-  eexists. split; [reflexivity|].
+  intros ms base T d dout X HT Hd Ho HX.
+  eapply (aseg_one base _ (mkI base OpJumpIfFalse (hi_byte T * 256 + lo_byte T) 3));
+    [apply dec_one3; reflexivity|reflexivity|change (1 <= d); exact Hd|reflexivity|].
   change (pops (mkI base OpJumpIfFalse (hi_byte T * 256 + lo_byte T) 3)) with 1.
   change (pushes (mkI base OpJumpIfFalse (hi_byte T * 256 + lo_byte T) 3)) with 0.
   replace (d - 1 + 0) with (d - 1) by lia.
   constructor; [|constructor; [|constructor]]; cbn [fst snd iarg iip].
-  - right; left. split; [pos|exact Ho].
-  - rewrite hi_lo by exact HT. right; right. exact HX.
+  - left. split; [pos|apply sle_pair; exact Ho].
+  - rewrite hi_lo by exact HT. right. exact HX.
 Qed.
 
-Lemma aseg_return : forall base d dout (X : epred), 1 <= d -> aseg base [OpReturn] d dout X.
+Lemma aseg_return : forall ms base d dout (X : epred), 1 <= d -> aseg base [OpReturn] (d, ms) dout X.
 Proof.
-  intros base d dout X Hd.
-  exists [mkI base OpReturn 0 1], (fun _ => d).
-  split; [apply dec_one1; reflexivity|split; [cbn [entry]; lia|]].
-  cbn [flows]. split; [|exact I]. split; [change (1 <= d); exact Hd|].
-  eexists. split; [reflexivity|constructor].
+  intros ms base d dout X Hd.
+  eapply (aseg_one base _ (mkI base OpReturn 0 1));
+    [apply dec_one1; reflexivity|reflexivity|change (1 <= d); exact Hd|reflexivity|constructor].
 Qed.
 
-(* IterationNext; JumpIfFalse T: continue with the iterator on the stack, or leave with nothing *)
-Lemma aseg_iter : forall base T d dout (X : epred), T < 65536 -> 3 <= d -> dout <= d - 2 ->
-  X T (d - 3) -> X T (d - 2) ->
-  aseg base [OpIterationNext; OpJumpIfFalse; hi_byte T; lo_byte T] d dout X.
+(* IterationReset: the iterable becomes an iterator; a loop is opened that remembers this height *)
+Lemma aseg_reset : forall ms base d (X : epred), 1 <= d ->
+  aseg base [OpIterationReset] (d, ms) (d, d :: ms) X.
 Proof.
-  intros base T d dout X HT Hd Ho HX3 HX2.
+  intros ms base d X Hd.
+  eapply (aseg_one base _ (mkI base OpIterationReset 0 1));
+    [apply dec_one1; reflexivity|reflexivity|change (1 <= d); exact Hd|reflexivity|].
+  change (pops (mkI base OpIterationReset 0 1)) with 1.
+  change (pushes (mkI base OpIterationReset 0 1)) with 1.
+  replace (d - 1 + 1) with d by lia.
+  constructor; [|constructor]. cbn [fst snd iip ilen]. left. split; [pos|apply sle_refl].
+Qed.
+
+(* IterationNext; JumpIfFalse T: the stack is cut back to the height the loop remembered; the loop
+   continues with the iterator on the stack, or is left (and closed) without it.  The JumpIfFalse
+   has no annotation of its own. *)
+Lemma aseg_iter : forall ms base T d k dout (X : epred), T < 65536 -> 3 <= d ->
+  N.min (d - 2) k <> 0 -> dout <= N.min (d - 2) k -> X T (N.min (d - 2) k - 1, ms) ->
+  aseg base [OpIterationNext; OpJumpIfFalse; hi_byte T; lo_byte T] (d, k :: ms) (dout, k :: ms) X.
+Proof.
+  intros ms base T d k dout X HT Hd Hb Ho HX.
   exists [mkI base OpIterationNext 0 1; mkI (base + 1) OpJumpIfFalse (hi_byte T * 256 + lo_byte T) 3],
-         (fun t => if t =? base then d else d - 1).
+         (fun t => if t =? base then Some (d, k :: ms) else None).
   split; [apply dec_1; [reflexivity|reflexivity|apply dec_one3; reflexivity]|split].
-  - cbn [entry]. cbv beta. rewrite N.eqb_refl. lia.
+  - cbn [entry]. exists (d, k :: ms). rewrite N.eqb_refl. split; [reflexivity|apply sle_refl].
   - cbn [flows VP.nexti]. split; [|split; [|exact I]].
     + unfold iflow. cbn [iip]. rewrite N.eqb_refl. split; [change (3 <= d); exact Hd|].
+      unfold edges. cbn [iop iip iarg].
+      change (OpIterationNext =? OpReturn) with false. change (OpIterationNext =? OpJump) with false.
+      change (OpIterationNext =? OpJumpIfFalse) with false. change (OpIterationNext =? OpIterationReset) with false.
+      change (OpIterationNext =? OpIterationNext) with true. change (OpJumpIfFalse =? OpJumpIfFalse) with true.
+      cbv beta iota zeta.
+      destruct (N.eqb_spec (N.min (d - 2) k) 0) as [E|_]; [contradiction|].
       eexists. split; [reflexivity|].
-      constructor; [|constructor; [|constructor]]; cbn [fst snd iarg iip].
-      * right; left. split; [pos|lia].
-      * rewrite hi_lo by exact HT. right; right. exact HX3.
-    + unfold iflow. cbn [iip]. destruct (N.eqb_spec (base + 1) base) as [E|_]; [lia|].
-      split; [change (1 <= d - 1); lia|].
-      eexists. split; [reflexivity|].
-      change (pops (mkI (base + 1) OpJumpIfFalse (hi_byte T * 256 + lo_byte T) 3)) with 1.
-      change (pushes (mkI (base + 1) OpJumpIfFalse (hi_byte T * 256 + lo_byte T) 3)) with 0.
-      replace (d - 1 - 1 + 0) with (d - 2) by lia.
-      constructor; [|constructor; [|constructor]]; cbn [fst snd iarg iip].
-      * right; left. split; [pos|exact Ho].
-      * rewrite hi_lo by exact HT. right; right. exact HX2.
+      constructor; [|constructor; [|constructor]]; cbn [fst snd].
+      * right; left. split; [pos|apply sle_pair; exact Ho].
+      * rewrite hi_lo by exact HT. right; right. exact HX.
+    + unfold iflow. cbn [iip]. destruct (N.eqb_spec (base + 1) base) as [E|_]; [lia|exact I].
 Qed.
 
 (* ------------------------------------------------------------------ *)
 (* PART 3: the control constructs, at the level of code *)
 
-Definition toX (T d : N) : epred := fun t n => t = T /\ d <= n.
+Definition toX (T : N) (d : astate) : epred := fun t n => t = T /\ sle d n.
 
 Lemma aseg_eq : forall base ch ch' d dout X, aseg base ch d dout X -> ch = ch' -> aseg base ch' d dout X.
 Proof. intros. subst. assumption. Qed.
@@ -328,23 +413,24 @@ Local Ltac xl := let H := fresh in intros ? ? H; left; exact H.
 Local Ltac xid := let H := fresh in intros ? ? H; exact H.
 Local Ltac xno := let H := fresh in intros ? ? H; destruct H.
 
-Lemma aseg_ph : forall base d X, aseg base [OpPlaceholder] d d X.
-Proof. intros. apply (aseg_op1 base OpPlaceholder d d 0 0); try reflexivity; lia. Qed.
+Lemma aseg_ph : forall ms base d X, aseg base [OpPlaceholder] (d, ms) (d, ms) X.
+Proof. intros. apply (aseg_op1 ms base OpPlaceholder d d 0 0); try reflexivity; lia. Qed.
 
 (* A; JumpIfFalse T; B; T: Placeholder *)
-Lemma aseg_if : forall base A B T d d1,
-  aseg base A d (d + 1) noX -> aseg (base + lenN A + 3) B d d1 noX -> d <= d1 ->
+Lemma aseg_if : forall ms base A B T d d1,
+  aseg base A (d, ms) (d + 1, ms) noX -> aseg (base + lenN A + 3) B (d, ms) (d1, ms) noX -> d <= d1 ->
   T = base + lenN A + 3 + lenN B -> T < 65536 ->
-  aseg base (A ++ [OpJumpIfFalse; hi_byte T; lo_byte T] ++ B ++ [OpPlaceholder]) d d noX.
+  aseg base (A ++ [OpJumpIfFalse; hi_byte T; lo_byte T] ++ B ++ [OpPlaceholder]) (d, ms) (d, ms) noX.
 Proof.
-  intros base A B T d d1 SA SB Hd HT Hlt.
+  intros ms base A B T d d1 SA SB Hd HT Hlt.
+  set (s := (d, ms)).
   eapply aseg_eq; [eapply (aseg_app base (A ++ [OpJumpIfFalse; hi_byte T; lo_byte T] ++ B) [OpPlaceholder]
-                                     d d d (toX T d) noX noX)|leq].
-  - eapply (aseg_app base A _ d (d + 1) d (toX T d) (toX T d) (toX T d)).
-    + eapply aseg_weaken; [exact SA|lia|lia|xno].
-    + eapply (aseg_app _ _ B (d + 1) d d (toX T d) (toX T d) (toX T d)).
-      * apply aseg_jif; [exact Hlt|lia|lia|split; [reflexivity|lia]].
-      * eapply aseg_at; [eapply aseg_weaken; [exact SB|lia|exact Hd|xno]|pos].
+                                     s s s (toX T s) noX noX)|leq].
+  - eapply (aseg_app base A _ s (d + 1, ms) s (toX T s) (toX T s) (toX T s)).
+    + eapply aseg_weaken; [exact SA|sl|sl|xno].
+    + eapply (aseg_app _ _ B (d + 1, ms) s s (toX T s) (toX T s) (toX T s)).
+      * apply aseg_jif; [exact Hlt|lia|lia|split; [reflexivity|unfold s; sl]].
+      * eapply aseg_at; [eapply aseg_weaken; [exact SB|sl|unfold s; sl|xno]|pos].
       * xl.
       * xid.
     + xl.
@@ -355,66 +441,70 @@ Proof.
 Qed.
 
 (* A; JumpIfFalse T1; B; Jump T2; T1: C; T2: Placeholder (if/else and the ternary) *)
-Lemma aseg_if_else : forall base A B C T1 T2 d d1 d2 dj,
-  aseg base A d (d + 1) noX -> aseg (base + lenN A + 3) B d d1 noX -> aseg T1 C d d2 noX ->
+Lemma aseg_if_else : forall ms base A B C T1 T2 d d1 d2 dj,
+  aseg base A (d, ms) (d + 1, ms) noX -> aseg (base + lenN A + 3) B (d, ms) (d1, ms) noX ->
+  aseg T1 C (d, ms) (d2, ms) noX ->
   dj <= d1 -> dj <= d2 ->
   T1 = base + lenN A + 3 + lenN B + 3 -> T2 = T1 + lenN C -> T2 < 65536 ->
   aseg base (A ++ [OpJumpIfFalse; hi_byte T1; lo_byte T1] ++ B ++
-             [OpJump; hi_byte T2; lo_byte T2] ++ C ++ [OpPlaceholder]) d dj noX.
+             [OpJump; hi_byte T2; lo_byte T2] ++ C ++ [OpPlaceholder]) (d, ms) (dj, ms) noX.
 Proof.
-  intros base A B C T1 T2 d d1 d2 dj SA SB SC H1 H2 HT1 HT2 Hlt.
-  set (X12 := fun t n => (t = T1 /\ d <= n) \/ (t = T2 /\ dj <= n)).
+  intros ms base A B C T1 T2 d d1 d2 dj SA SB SC H1 H2 HT1 HT2 Hlt.
+  set (s := (d, ms)). set (sj := (dj, ms)).
+  set (X12 := fun t n => (t = T1 /\ sle s n) \/ (t = T2 /\ sle sj n)).
   set (P1 := A ++ [OpJumpIfFalse; hi_byte T1; lo_byte T1] ++ B ++ [OpJump; hi_byte T2; lo_byte T2]).
   assert (L1 : base + lenN P1 = T1) by (unfold P1; pos).
-  assert (S1 : aseg base P1 d d X12).
-  { unfold P1. eapply (aseg_app base A _ d (d + 1) d X12 X12 X12).
-    - eapply aseg_weaken; [exact SA|lia|lia|xno].
-    - eapply (aseg_app _ _ _ (d + 1) d d X12 X12 X12).
-      + apply aseg_jif; [lia|lia|lia|left; split; [reflexivity|lia]].
-      + eapply (aseg_app _ B _ d d1 d X12 X12 X12).
-        * eapply aseg_at; [eapply aseg_weaken; [exact SB|lia|lia|xno]|pos].
-        * apply aseg_jump; [exact Hlt|right; split; [reflexivity|exact H1]].
+  assert (S1 : aseg base P1 s s X12).
+  { unfold P1. eapply (aseg_app base A _ s (d + 1, ms) s X12 X12 X12).
+    - eapply aseg_weaken; [exact SA|sl|sl|xno].
+    - eapply (aseg_app _ _ _ (d + 1, ms) s s X12 X12 X12).
+      + apply aseg_jif; [lia|lia|lia|left; split; [reflexivity|unfold s; sl]].
+      + eapply (aseg_app _ B _ s (d1, ms) s X12 X12 X12).
+        * eapply aseg_at; [eapply aseg_weaken; [exact SB|sl|sl|xno]|pos].
+        * apply aseg_jump; [exact Hlt|right; split; [reflexivity|unfold sj; sl]].
         * xl.
         * xid.
       + xl.
       + xid.
     - xl.
     - xid. }
-  assert (S2 : aseg base (P1 ++ C) d dj (toX T2 dj)).
-  { eapply (aseg_app base P1 C d d dj X12 noX (toX T2 dj)).
+  assert (S2 : aseg base (P1 ++ C) s sj (toX T2 sj)).
+  { eapply (aseg_app base P1 C s s sj X12 noX (toX T2 sj)).
     - exact S1.
-    - eapply aseg_at; [eapply aseg_weaken; [exact SC|lia|exact H2|xid]|lia].
+    - eapply aseg_at; [eapply aseg_weaken; [exact SC|sl|unfold sj; sl|xid]|lia].
     - intros t n [(Et & Hn)|(Et & Hn)]; [right; split; [lia|exact Hn]|left; split; assumption].
     - xno. }
-  eapply aseg_eq; [eapply (aseg_app base (P1 ++ C) [OpPlaceholder] d dj dj (toX T2 dj) noX noX)|unfold P1; leq].
+  eapply aseg_eq; [eapply (aseg_app base (P1 ++ C) [OpPlaceholder] s sj sj (toX T2 sj) noX noX)|unfold P1; leq].
   - exact S2.
   - apply aseg_ph.
   - intros t n (Et & Hn). right. split; [subst t; pos|exact Hn].
   - xid.
 Qed.
 
-(* base: H (head, leaves to T); B; Jump base; T: Placeholder *)
-Lemma aseg_loop : forall base H B T dh db de d1,
-  aseg base H dh db (toX T de) -> aseg (base + lenN H) B db d1 noX -> dh <= d1 ->
+(* base: H (head, leaves to T in the state (de, me)); B; Jump base; T: Placeholder.
+   For `while`, mh = me; for `foreach` the head and the body are inside the loop (mh = k :: me). *)
+Lemma aseg_loop : forall mh me base H B T dh db de d1,
+  aseg base H (dh, mh) (db, mh) (toX T (de, me)) -> aseg (base + lenN H) B (db, mh) (d1, mh) noX -> dh <= d1 ->
   T = base + lenN H + lenN B + 3 -> T < 65536 -> H <> [] ->
-  aseg base (H ++ B ++ [OpJump; hi_byte base; lo_byte base] ++ [OpPlaceholder]) dh de noX.
+  aseg base (H ++ B ++ [OpJump; hi_byte base; lo_byte base] ++ [OpPlaceholder]) (dh, mh) (de, me) noX.
 Proof.
-  intros base H B T dh db de d1 SH SB Hd HT Hlt Hne.
-  set (XL := fun t n => toX T de t n \/ (t = base /\ dh <= n)).
+  intros mh me base H B T dh db de d1 SH SB Hd HT Hlt Hne.
+  set (sh := (dh, mh)). set (se := (de, me)).
+  set (XL := fun t n => toX T se t n \/ (t = base /\ sle sh n)).
   set (P1 := H ++ B ++ [OpJump; hi_byte base; lo_byte base]).
-  assert (S1 : aseg base P1 dh de XL).
-  { unfold P1. eapply (aseg_app base H _ dh db de XL XL XL).
-    - eapply aseg_weaken; [exact SH|lia|lia|xl].
-    - eapply (aseg_app _ B _ db d1 de XL XL XL).
-      + eapply aseg_weaken; [exact SB|lia|lia|xno].
-      + apply aseg_jump; [lia|right; split; [reflexivity|exact Hd]].
+  assert (S1 : aseg base P1 sh se XL).
+  { unfold P1. eapply (aseg_app base H _ sh (db, mh) se XL XL XL).
+    - eapply aseg_weaken; [exact SH|sl|sl|xl].
+    - eapply (aseg_app _ B _ (db, mh) (d1, mh) se XL XL XL).
+      + eapply aseg_weaken; [exact SB|sl|sl|xno].
+      + apply aseg_jump; [lia|right; split; [reflexivity|unfold sh; sl]].
       + xl.
       + xid.
     - xl.
     - xid. }
   apply aseg_close.
   { destruct H; [contradiction|discriminate]. }
-  eapply aseg_eq; [eapply (aseg_app base P1 [OpPlaceholder] dh de de XL noX)|unfold P1; leq].
+  eapply aseg_eq; [eapply (aseg_app base P1 [OpPlaceholder] sh se se XL noX)|unfold P1; leq].
   - exact S1.
   - apply aseg_ph.
   - intros t n [(Et & Hn)|Hb]; [right; split; [subst t; unfold P1; pos|exact Hn]|left; right; exact Hb].
@@ -422,29 +512,30 @@ Proof.
 Qed.
 
 (* one arm of a switch: V; X; Case; JumpIfFalse Ln; Blk; Jump E; Ln: *)
-Lemma aseg_case_head : forall base V Xc Blk Ln E d d1,
-  aseg base V d (d + 1) noX -> aseg (base + lenN V) Xc (d + 1) (d + 1 + 1) noX ->
-  aseg (base + lenN V + lenN Xc + 4) Blk d d1 noX -> d <= d1 ->
+Lemma aseg_case_head : forall ms base V Xc Blk Ln E d d1,
+  aseg base V (d, ms) (d + 1, ms) noX -> aseg (base + lenN V) Xc (d + 1, ms) (d + 1 + 1, ms) noX ->
+  aseg (base + lenN V + lenN Xc + 4) Blk (d, ms) (d1, ms) noX -> d <= d1 ->
   Ln = base + lenN V + lenN Xc + 4 + lenN Blk + 3 -> Ln < 65536 -> E < 65536 ->
   aseg base (V ++ Xc ++ [OpCase] ++ [OpJumpIfFalse; hi_byte Ln; lo_byte Ln] ++ Blk ++
-             [OpJump; hi_byte E; lo_byte E]) d d (toX E d).
+             [OpJump; hi_byte E; lo_byte E]) (d, ms) (d, ms) (toX E (d, ms)).
 Proof.
-  intros base V Xc Blk Ln E d d1 SV SX SB Hd HLn Hlt HE.
+  intros ms base V Xc Blk Ln E d d1 SV SX SB Hd HLn Hlt HE.
   apply aseg_absorb.
-  set (XA := fun t n => toX E d t n \/
+  set (s := (d, ms)).
+  set (XA := fun t n => toX E s t n \/
      (t = base + lenN (V ++ Xc ++ [OpCase] ++ [OpJumpIfFalse; hi_byte Ln; lo_byte Ln] ++ Blk ++
-                       [OpJump; hi_byte E; lo_byte E]) /\ d <= n)).
-  eapply (aseg_app base V _ d (d + 1) d XA XA XA).
-  - eapply aseg_weaken; [exact SV|lia|lia|xno].
-  - eapply (aseg_app _ Xc _ (d + 1) (d + 1 + 1) d XA XA XA).
-    + eapply aseg_weaken; [exact SX|lia|lia|xno].
-    + eapply (aseg_app _ [OpCase] _ (d + 1 + 1) (d + 1) d XA XA XA).
-      * apply (aseg_op1 _ OpCase (d + 1 + 1) (d + 1) 2 1); try reflexivity; lia.
-      * eapply (aseg_app _ _ _ (d + 1) d d XA XA XA).
-        -- apply aseg_jif; [exact Hlt|lia|lia|]. right. split; [pos|lia].
-        -- eapply (aseg_app _ Blk _ d d1 d XA XA XA).
-           ++ eapply aseg_at; [eapply aseg_weaken; [exact SB|lia|lia|xno]|pos].
-           ++ apply aseg_jump; [exact HE|left; split; [reflexivity|exact Hd]].
+                       [OpJump; hi_byte E; lo_byte E]) /\ sle s n)).
+  eapply (aseg_app base V _ s (d + 1, ms) s XA XA XA).
+  - eapply aseg_weaken; [exact SV|sl|sl|xno].
+  - eapply (aseg_app _ Xc _ (d + 1, ms) (d + 1 + 1, ms) s XA XA XA).
+    + eapply aseg_weaken; [exact SX|sl|sl|xno].
+    + eapply (aseg_app _ [OpCase] _ (d + 1 + 1, ms) (d + 1, ms) s XA XA XA).
+      * apply (aseg_op1 ms _ OpCase (d + 1 + 1) (d + 1) 2 1); try reflexivity; lia.
+      * eapply (aseg_app _ _ _ (d + 1, ms) s s XA XA XA).
+        -- apply aseg_jif; [exact Hlt|lia|lia|]. right. split; [pos|unfold s; sl].
+        -- eapply (aseg_app _ Blk _ s (d1, ms) s XA XA XA).
+           ++ eapply aseg_at; [eapply aseg_weaken; [exact SB|sl|sl|xno]|pos].
+           ++ apply aseg_jump; [exact HE|left; split; [reflexivity|unfold s; sl]].
            ++ xl.
            ++ xid.
         -- xl.
@@ -458,16 +549,17 @@ Proof.
 Qed.
 
 (* the arms g; the default blocks D; E: Placeholder *)
-Lemma aseg_switch : forall base g D E d d1,
-  aseg base g d d (toX E d) -> aseg (base + lenN g) D d d1 noX -> d <= d1 ->
+Lemma aseg_switch : forall ms base g D E d d1,
+  aseg base g (d, ms) (d, ms) (toX E (d, ms)) -> aseg (base + lenN g) D (d, ms) (d1, ms) noX -> d <= d1 ->
   E = base + lenN g + lenN D ->
-  aseg base (g ++ D ++ [OpPlaceholder]) d d noX.
+  aseg base (g ++ D ++ [OpPlaceholder]) (d, ms) (d, ms) noX.
 Proof.
-  intros base g D E d d1 Sg SD Hd HE.
-  eapply aseg_eq; [eapply (aseg_app base (g ++ D) [OpPlaceholder] d d d (toX E d) noX noX)|leq].
-  - eapply (aseg_app base g D d d d (toX E d) (toX E d) (toX E d)).
+  intros ms base g D E d d1 Sg SD Hd HE.
+  set (s := (d, ms)).
+  eapply aseg_eq; [eapply (aseg_app base (g ++ D) [OpPlaceholder] s s s (toX E s) noX noX)|leq].
+  - eapply (aseg_app base g D s s s (toX E s) (toX E s) (toX E s)).
     + exact Sg.
-    + eapply aseg_weaken; [exact SD|lia|exact Hd|xno].
+    + eapply aseg_weaken; [exact SD|sl|unfold s; sl|xno].
     + xl.
     + xid.
   - apply aseg_ph.
@@ -476,26 +568,26 @@ Proof.
 Qed.
 
 (* a function body that does not end in Return gets `Void; Return` appended *)
-Lemma aseg_fn_tail : forall A dout, aseg 0 A 0 dout noX -> aseg 0 (A ++ [OpVoid; OpReturn]) 0 0 noX.
+Lemma aseg_fn_tail : forall A dout, aseg 0 A (0, []) (dout, []) noX ->
+  aseg 0 (A ++ [OpVoid; OpReturn]) (0, []) (0, []) noX.
 Proof.
   intros A dout SA.
-  eapply (aseg_app 0 A [OpVoid; OpReturn] 0 dout 0 noX noX noX).
+  eapply (aseg_app 0 A [OpVoid; OpReturn] (0, []) (dout, []) (0, []) noX noX noX).
   - exact SA.
   - change [OpVoid; OpReturn] with ([OpVoid] ++ [OpReturn]).
-    eapply (aseg_app _ [OpVoid] [OpReturn] dout (dout + 1) 0 noX noX noX).
-    + apply (aseg_op1 _ OpVoid dout (dout + 1) 0 1); try reflexivity; lia.
+    eapply (aseg_app _ [OpVoid] [OpReturn] (dout, []) (dout + 1, []) (0, []) noX noX noX).
+    + apply (aseg_op1 [] _ OpVoid dout (dout + 1) 0 1); try reflexivity; lia.
     + apply aseg_return. lia.
     + xl.
     + xid.
   - xl.
   - xid.
 Qed.
-
 (* ------------------------------------------------------------------ *)
 (* PART 4: compiler states *)
 
 (* a body with an annotation: entered with an empty stack *)
-Definition body_ann (code : list N) : Prop := exists dout, aseg 0 code 0 dout noX.
+Definition body_ann (code : list N) : Prop := exists dout, aseg 0 code (0, []) (dout, []) noX.
 
 Definition FA (fs : list (str * ufunc)) : Prop :=
   Forall (fun nf => lenN (fcode (snd nf)) <= 65535 -> body_ann (fcode (snd nf))) fs.
@@ -554,9 +646,13 @@ Definition sml (c : cstate) : Prop := clen c <= 65535.
 Lemma sml_back : forall c c' ch, cstate_ok c -> emits c c' ch -> sml c' -> sml c.
 Proof. intros c c' ch Hc E S. pose proof (emits_len _ _ _ Hc E) as L. unfold sml in *. lia. Qed.
 
-(* compiling from c to c' appended a fragment that takes depth d to depth >= dout *)
+(* compiling from c to c' appended a fragment that takes depth d to depth >= dout, whatever loops
+   are open around it (and leaves them open) *)
 Definition Mx (d dout : N) (c c' : cstate) : Prop :=
-  exists ch, emits c c' ch /\ fpa c c' /\ (sml c' -> aseg (clen c) ch d dout noX).
+  exists ch, emits c c' ch /\ fpa c c' /\ (sml c' -> forall ms, aseg (clen c) ch (d, ms) (dout, ms) noX).
+(* the same for a fragment that is entered with the loops k open and closes them *)
+Definition Mxl (k : list N) (d dout : N) (c c' : cstate) : Prop :=
+  exists ch, emits c c' ch /\ fpa c c' /\ (sml c' -> forall ms, aseg (clen c) ch (d, k ++ ms) (dout, ms) noX).
 
 Lemma Mx_ok : forall d e c c', Mx d e c c' -> cstate_ok c'.
 Proof. intros d e c c' (ch & E & _). apply E. Qed.
@@ -564,7 +660,7 @@ Proof. intros d e c c' (ch & E & _). apply E. Qed.
 Lemma Mx_refl : forall d c, cstate_ok c -> Mx d d c c.
 Proof.
   intros d c Hc. exists []. split; [apply emits_refl; exact Hc|split; [apply fpa_refl|]].
-  intros _. apply aseg_nil. lia.
+  intros _ ms. apply aseg_nil. sl.
 Qed.
 
 Lemma Mx_trans : forall d d1 d2 c c1 c2, cstate_ok c -> Mx d d1 c c1 -> Mx d1 d2 c1 c2 -> Mx d d2 c c2.
@@ -573,10 +669,10 @@ Proof.
   assert (Hc1 : cstate_ok c1) by apply E1.
   pose proof (emits_len _ _ _ Hc E1) as L1.
   exists (A ++ B). split; [eapply emits_trans; eassumption|split; [eapply fpa_trans; eassumption|]].
-  intros sm2. pose proof (sml_back _ _ _ Hc1 E2 sm2) as sm1.
-  eapply (aseg_app (clen c) A B d d1 d2 noX noX noX).
-  - exact (S1 sm1).
-  - eapply aseg_at; [exact (S2 sm2)|lia].
+  intros sm2 ms. pose proof (sml_back _ _ _ Hc1 E2 sm2) as sm1.
+  eapply (aseg_app (clen c) A B (d, ms) (d1, ms) (d2, ms) noX noX noX).
+  - exact (S1 sm1 ms).
+  - eapply aseg_at; [exact (S2 sm2 ms)|lia].
   - intros t n [].
   - intros t n [].
 Qed.
@@ -584,7 +680,7 @@ Qed.
 Lemma Mx_weaken : forall d dout dout' c c', Mx d dout c c' -> dout' <= dout -> Mx d dout' c c'.
 Proof.
   intros d dout dout' c c' (ch & E & F & S) H. exists ch. split; [exact E|split; [exact F|]].
-  intro sm. eapply aseg_weaken; [exact (S sm)|lia|exact H|auto].
+  intros sm ms. eapply aseg_weaken; [exact (S sm ms)|sl|sl|auto].
 Qed.
 
 Lemma Mx_emit0 : forall op c d p q, cstate_ok c ->
@@ -594,7 +690,7 @@ Lemma Mx_emit0 : forall op c d p q, cstate_ok c ->
 Proof.
   intros op c d p q Hc Hk Hl Hct Hp Hq Hle. exists [op].
   split; [apply emits_emit0; exact Hc|split; [fp|]].
-  intros _. apply (aseg_op1 _ op d _ p q); try assumption. lia.
+  intros _ ms. apply (aseg_op1 ms _ op d _ p q); try assumption. lia.
 Qed.
 
 Lemma Mx_emit1 : forall op v c d p q, cstate_ok c ->
@@ -604,7 +700,7 @@ Lemma Mx_emit1 : forall op v c d p q, cstate_ok c ->
 Proof.
   intros op v c d p q Hc Hk Hl Hct Hp Hq Hle. exists [op; hi_byte v; lo_byte v].
   split; [apply emits_emit1; exact Hc|split; [fp|]].
-  intros _. apply (aseg_op3 _ op _ _ d _ p q); try assumption. lia.
+  intros _ ms. apply (aseg_op3 ms _ op _ _ d _ p q); try assumption. lia.
 Qed.
 
 Lemma Mx_add : forall op v c i c1 d p q, cstate_ok c -> add_const v c = (i, c1) ->
@@ -614,7 +710,7 @@ Lemma Mx_add : forall op v c i c1 d p q, cstate_ok c -> add_const v c = (i, c1) 
 Proof.
   intros op v c i c1 d p q Hc H Hk Hl Hct Hp Hq Hle. exists [op; hi_byte i; lo_byte i].
   split; [eapply emits_add'; eassumption|split; [eapply fpa_add'; [exact H|fp]|]].
-  intros _. apply (aseg_op3 _ op _ _ d _ p q); try assumption. lia.
+  intros _ ms. apply (aseg_op3 ms _ op _ _ d _ p q); try assumption. lia.
 Qed.
 
 Lemma Mx_const : forall v c d, cstate_ok c -> Mx d (d + 1) c (emit_const v c).
@@ -657,13 +753,13 @@ Proof.
   exists (A ++ [OpJumpIfFalse; hi_byte T; lo_byte T] ++ B ++ [OpPlaceholder]). split; [|split].
   - eapply emits_eq; [eapply emits_trans; [exact E4|apply emits_emit0; exact Hc4]|leq].
   - unfold c4, c2 in *. fp.
-  - intros sl. unfold sml in sl. cbn [emit0 clen] in sl.
+  - intros sl ms. unfold sml in sl. cbn [emit0 clen] in sl.
     assert (sm3 : sml c3) by (unfold sml; lia).
     assert (sm1 : sml c1).
     { eapply sml_back; [exact Hc1|eapply emits_trans; [exact E2|exact E3]|exact sm3]. }
-    eapply (aseg_if _ A B T d d1).
-    + exact (S1 sm1).
-    + eapply aseg_at; [exact (S3 sm3)|lia].
+    eapply (aseg_if ms _ A B T d d1).
+    + exact (S1 sm1 ms).
+    + eapply aseg_at; [exact (S3 sm3 ms)|lia].
     + exact Hd.
     + lia.
     + lia.
@@ -717,15 +813,15 @@ Proof.
           [OpJump; hi_byte T2; lo_byte T2] ++ code7 ++ [OpPlaceholder]). split; [|split].
   - eapply emits_eq; [eapply emits_trans; [exact E8|apply emits_emit0; exact Hc8]|leq].
   - unfold c8, c6, c5, c4, c2 in *. fp.
-  - intros sl. unfold sml in sl. cbn [emit0 clen] in sl.
+  - intros sl ms. unfold sml in sl. cbn [emit0 clen] in sl.
     assert (sm7 : sml c7) by (unfold sml; lia).
     assert (sm3 : sml c3) by (unfold sml; lia).
     assert (sm1 : sml c1).
     { eapply sml_back; [exact Hc1|eapply emits_trans; [exact E2|exact E3]|exact sm3]. }
-    eapply (aseg_if_else _ code1 code3 code7 T1 T2 d d1 d2 dj).
-    + exact (S1 sm1).
-    + eapply aseg_at; [exact (S3 sm3)|lia].
-    + eapply aseg_at; [exact (S7 sm7)|lia].
+    eapply (aseg_if_else ms _ code1 code3 code7 T1 T2 d d1 d2 dj).
+    + exact (S1 sm1 ms).
+    + eapply aseg_at; [exact (S3 sm3 ms)|lia].
+    + eapply aseg_at; [exact (S7 sm7 ms)|lia].
     + exact Hj1.
     + exact Hj2.
     + lia.
@@ -774,15 +870,15 @@ Proof.
           [OpJump; hi_byte T2; lo_byte T2] ++ code6 ++ [OpPlaceholder]). split; [|split].
   - eapply emits_eq; [eapply emits_trans; [exact E7|apply emits_emit0; exact Hc7]|leq].
   - unfold c7, c5, c4, c2 in *. fp.
-  - intros sl. unfold sml in sl. cbn [emit0 clen] in sl.
+  - intros sl ms. unfold sml in sl. cbn [emit0 clen] in sl.
     assert (sm6 : sml c6) by (unfold sml; lia).
     assert (sm3 : sml c3) by (unfold sml; lia).
     assert (sm1 : sml c1).
     { eapply sml_back; [exact Hc1|eapply emits_trans; [exact E2|exact E3]|exact sm3]. }
-    eapply (aseg_if_else _ code1 code3 code6 T1 T2 d (d + 1) (d + 1) (d + 1)).
-    + exact (S1 sm1).
-    + eapply aseg_at; [exact (S3 sm3)|lia].
-    + eapply aseg_at; [exact (S6 sm6)|lia].
+    eapply (aseg_if_else ms _ code1 code3 code6 T1 T2 d (d + 1) (d + 1) (d + 1)).
+    + exact (S1 sm1 ms).
+    + eapply aseg_at; [exact (S3 sm3 ms)|lia].
+    + eapply aseg_at; [exact (S6 sm6 ms)|lia].
     + lia.
     + lia.
     + lia.
@@ -791,24 +887,26 @@ Proof.
 Qed.
 
 (* the head of a loop: code followed by a conditional jump out of the loop *)
-Definition Hx (dh db de : N) (ca cb : cstate) : Prop :=
+(* k: the loops that the head finds open and that are closed on the way out (none for `while`,
+   the loop itself for `foreach`) *)
+Definition Hx (k : list N) (dh db de : N) (ca cb : cstate) : Prop :=
   exists code1, emits ca cb code1 /\ fpa ca cb /\
-    (sml cb -> forall T, T < 65536 ->
-       aseg (clen ca) (code1 ++ [OpJumpIfFalse; hi_byte T; lo_byte T]) dh db (toX T de)).
+    (sml cb -> forall ms T, T < 65536 ->
+       aseg (clen ca) (code1 ++ [OpJumpIfFalse; hi_byte T; lo_byte T]) (dh, k ++ ms) (db, k ++ ms) (toX T (de, ms))).
 
-Lemma Hx_cond : forall d ca cb, cstate_ok ca -> Mx d (d + 1) ca cb -> Hx d d d ca cb.
+Lemma Hx_cond : forall d ca cb, cstate_ok ca -> Mx d (d + 1) ca cb -> Hx [] d d d ca cb.
 Proof.
   intros d ca cb Hc (A & E1 & F1 & S1). exists A. split; [exact E1|split; [exact F1|]].
-  intros sm T HT.
-  eapply (aseg_app (clen ca) A _ d (d + 1) d noX (toX T d) (toX T d)).
-  - exact (S1 sm).
-  - apply aseg_jif; [exact HT|lia|lia|split; [reflexivity|lia]].
+  intros sm ms T HT. cbn [app].
+  eapply (aseg_app (clen ca) A _ (d, ms) (d + 1, ms) (d, ms) noX (toX T (d, ms)) (toX T (d, ms))).
+  - exact (S1 sm ms).
+  - apply aseg_jif; [exact HT|lia|lia|split; [reflexivity|sl]].
   - intros t n [].
   - auto.
 Qed.
 
 Lemma Hx_foreach : forall d idx ident c2, cstate_ok c2 ->
-  Hx (d + 1) (d + 1) d c2 (emit0 OpIterationNext (emit_const (VStr ident) (emit_const (VStr idx) c2))).
+  Hx [d + 1] (d + 1) (d + 1) d c2 (emit0 OpIterationNext (emit_const (VStr ident) (emit_const (VStr idx) c2))).
 Proof.
   intros d idx ident c2 Hc2.
   pose proof (Mx_const (VStr idx) c2 (d + 1) Hc2) as R1.
@@ -818,22 +916,24 @@ Proof.
   assert (Hc3 : cstate_ok c3) by apply E.
   pose proof (emits_emit0 OpIterationNext c3 Hc3) as E4.
   exists (cc ++ [OpIterationNext]). split; [eapply emits_trans; eassumption|split; [fp|]].
-  intros sm T HT. unfold sml in sm. cbn [emit0 clen] in sm.
+  intros sm ms T HT. unfold sml in sm. cbn [emit0 clen] in sm. cbn [app].
   assert (sm3 : sml c3) by (unfold sml; lia).
+  assert (Hb : N.min (d + 1 + 1 + 1 - 2) (d + 1) = d + 1) by lia.
   eapply aseg_eq; [eapply (aseg_app (clen c2) cc [OpIterationNext; OpJumpIfFalse; hi_byte T; lo_byte T]
-                                    (d + 1) (d + 1 + 1 + 1) (d + 1) noX (toX T d) (toX T d))|leq].
-  - exact (S sm3).
-  - apply aseg_iter; [exact HT|lia|lia|split; [reflexivity|lia]|split; [reflexivity|lia]].
+                                    (d + 1, (d + 1) :: ms) (d + 1 + 1 + 1, (d + 1) :: ms) (d + 1, (d + 1) :: ms)
+                                    noX (toX T (d, ms)) (toX T (d, ms)))|leq].
+  - exact (S sm3 ((d + 1) :: ms)).
+  - apply aseg_iter; [exact HT|lia|lia|lia|]. rewrite Hb. split; [reflexivity|sl].
   - intros t n [].
   - auto.
 Qed.
 
-Lemma mc_loop : forall dh db de d1 ca cb c6, cstate_ok ca -> Hx dh db de ca cb ->
+Lemma mc_loop : forall k dh db de d1 ca cb c6, cstate_ok ca -> Hx k dh db de ca cb ->
   Mx db d1 (emit1' OpJumpIfFalse 9999 cb) c6 -> dh <= d1 ->
   let c7 := emit1' OpJump (clen ca) c6 in
-  Mx dh de ca (emit0 OpPlaceholder (patch (clen cb) (clen c7) c7)).
+  Mxl k dh de ca (emit0 OpPlaceholder (patch (clen cb) (clen c7) c7)).
 Proof.
-  intros dh db de d1 c c1 c3 Hc (code1 & E1 & F1 & S1) (code3 & E3 & F3 & S3) Hd c4.
+  intros k dh db de d1 c c1 c3 Hc (code1 & E1 & F1 & S1) (code3 & E3 & F3 & S3) Hd c4.
   assert (Hc1 : cstate_ok c1) by apply E1.
   pose proof (emits_emit1 OpJumpIfFalse 9999 c1 Hc1) as E2.
   set (c2 := emit1' OpJumpIfFalse 9999 c1) in *.
@@ -859,13 +959,13 @@ Proof.
           [OpJump; hi_byte S0; lo_byte S0] ++ [OpPlaceholder]). split; [|split].
   - eapply emits_eq; [eapply emits_trans; [exact E5|apply emits_emit0; exact Hc5]|leq].
   - unfold c5, c4, c2 in *. fp.
-  - intros sl. unfold sml in sl. cbn [emit0 clen] in sl.
+  - intros sl ms. unfold sml in sl. cbn [emit0 clen] in sl.
     assert (sm3 : sml c3) by (unfold sml; lia).
     assert (sm1 : sml c1).
     { eapply sml_back; [exact Hc1|eapply emits_trans; [exact E2|exact E3]|exact sm3]. }
-    eapply aseg_eq; [eapply (aseg_loop S0 (code1 ++ [OpJumpIfFalse; hi_byte T; lo_byte T]) code3 T dh db de d1)|leq].
+    eapply aseg_eq; [eapply (aseg_loop (k ++ ms) ms S0 (code1 ++ [OpJumpIfFalse; hi_byte T; lo_byte T]) code3 T dh db de d1)|leq].
     + apply (S1 sm1). lia.
-    + eapply aseg_at; [exact (S3 sm3)|unfold S0; pos].
+    + eapply aseg_at; [exact (S3 sm3 (k ++ ms))|unfold S0; pos].
     + exact Hd.
     + unfold S0. pos.
     + lia.
@@ -877,7 +977,7 @@ Qed.
 Definition Mce (d : N) (c c' : cstate) (patches po : list N) : Prop :=
   exists new g, po = patches ++ new /\ (forall E, lenN (g E) = lenN (g 0)) /\
     emits c c' (g 9999) /\ patchable new (clen c) g /\ fpa c c' /\
-    (forall E, sml c' -> E < 65536 -> aseg (clen c) (g E) d d (toX E d)).
+    (forall E ms, sml c' -> E < 65536 -> aseg (clen c) (g E) (d, ms) (d, ms) (toX E (d, ms))).
 
 Lemma Mce_ok : forall d c c' p po, Mce d c c' p po -> cstate_ok c'.
 Proof. intros d c c' p po (new & g & _ & _ & E & _). apply E. Qed.
@@ -889,7 +989,7 @@ Proof.
   - apply emits_refl. exact Hc.
   - apply patchable_nil.
   - apply fpa_refl.
-  - intros. apply aseg_nil. lia.
+  - intros. apply aseg_nil. sl.
 Qed.
 
 Lemma Mce_trans : forall d c c1 c' patches p1 po, cstate_ok c ->
@@ -906,8 +1006,8 @@ Proof.
   - apply patchable_app; [exact Hl1|exact Pat1|].
     replace (clen c + lenN (g1 0)) with (clen c1) by (rewrite <- (Hl1 9999); lia). exact Pat2.
   - eapply fpa_trans; eassumption.
-  - intros E sm HE. pose proof (sml_back _ _ _ Hc1 Em2 sm) as sm1.
-    eapply (aseg_app (clen c) (g1 E) (g2 E) d d d (toX E d) (toX E d) (toX E d)).
+  - intros E ms sm HE. pose proof (sml_back _ _ _ Hc1 Em2 sm) as sm1.
+    eapply (aseg_app (clen c) (g1 E) (g2 E) (d, ms) (d, ms) (d, ms) (toX E (d, ms)) (toX E (d, ms)) (toX E (d, ms))).
     + apply Sem1; assumption.
     + eapply aseg_at; [apply Sem2; assumption|]. rewrite (Hl1 E), <- (Hl1 9999). lia.
     + intros t n H. left. exact H.
@@ -969,14 +1069,14 @@ Proof.
     - rewrite Hp5. eapply patchable_ext; [|apply (patchable_one (clen c) a [])].
       intro E. unfold A, a, pre3. leq.
     - unfold c7, c6, c4, c3 in *. fp.
-    - intros E sl HE. unfold sml in sl.
+    - intros E ms sl HE. unfold sml in sl.
       assert (sm5 : sml c5) by (unfold sml; lia).
       assert (sm2 : sml c2) by (unfold sml; lia).
       pose proof (sml_back _ _ _ Hc1 E2 sm2) as sm1.
-      unfold A. eapply (aseg_case_head _ codeV codeE codeB Ln E d d1).
-      + exact (S1 sm1).
-      + eapply aseg_at; [exact (S2 sm2)|lia].
-      + eapply aseg_at; [exact (S5 sm5)|lia].
+      unfold A. eapply (aseg_case_head ms _ codeV codeE codeB Ln E d d1).
+      + exact (S1 sm1 ms).
+      + eapply aseg_at; [exact (S2 sm2 ms)|lia].
+      + eapply aseg_at; [exact (S5 sm5 ms)|lia].
       + exact Hd.
       + lia.
       + lia.
@@ -1002,13 +1102,13 @@ Proof.
   exists (g E ++ codeD ++ [OpPlaceholder]). split; [|split].
   - eapply emits_eq; [eapply emits_trans; [exact E3|apply emits_emit0; exact Hc3]|leq].
   - unfold c3. fp.
-  - intros sl. unfold sml in sl. cbn [emit0 clen] in sl.
+  - intros sl ms. unfold sml in sl. cbn [emit0 clen] in sl.
     assert (sm2 : sml c2) by (unfold sml; lia).
     pose proof (sml_back _ _ _ Hc1 ED sm2) as sm1.
     assert (HE : E = clen c + lenN (g E) + lenN codeD) by (rewrite (Hl E), <- (Hl 9999); lia).
     apply aseg_switch with (E := E) (d1 := d1).
     + apply Sem; [exact sm1|lia].
-    + eapply aseg_at; [exact (SD sm2)|]. rewrite (Hl E), <- (Hl 9999). lia.
+    + eapply aseg_at; [exact (SD sm2 ms)|]. rewrite (Hl E), <- (Hl 9999). lia.
     + exact Hd.
     + exact HE.
 Qed.
@@ -1041,7 +1141,7 @@ Proof.
     { unfold c2. destruct (last_op _ code1 None) as [op|]; [destruct (op =? OpReturn)|];
         cbn [emit0 crev rev]; fold code1; rewrite HA; pos. }
     assert (sm : sml c1) by (unfold sml; lia).
-    pose proof (S1 sm) as SA. cbn [c0 clen] in SA.
+    pose proof (S1 sm []) as SA. cbn [c0 clen] in SA.
     unfold c2. destruct (last_op _ code1 None) as [op|]; [destruct (op =? OpReturn)|].
     - fold code1. rewrite HA. exists dout. exact SA.
     - cbn [emit0 crev rev]. fold code1. rewrite HA. rewrite <- app_assoc. cbn [app].
@@ -1053,18 +1153,34 @@ Proof.
     + cbn [consts]. rewrite Hcs. exact (emits_pe _ _ _ E1).
     + unfold emitted. cbn [crev]. symmetry. apply app_nil_r.
   - intro K. cbn [funcs]. rewrite Hfs. apply FA_set_func; [exact Hfn|]. apply F1. exact K.
-  - intros _. apply aseg_nil. lia.
+  - intros _ ms. apply aseg_nil. sl.
 Qed.
 
 Lemma Mx_return : forall c d dout, cstate_ok c -> 1 <= d -> Mx d dout c (emit0 OpReturn c).
 Proof.
   intros c d dout Hc Hd. exists [OpReturn].
   split; [apply emits_emit0; exact Hc|split; [fp|]].
-  intros _. apply aseg_return. exact Hd.
+  intros _ ms. apply aseg_return. exact Hd.
 Qed.
 
 Lemma Mx_eq : forall d e e' c c', Mx d e c c' -> e = e' -> Mx d e' c c'.
 Proof. intros. subst. assumption. Qed.
+
+(* IterationReset, then a loop that runs inside the scope it opens *)
+Lemma mc_foreach : forall d c1 c', cstate_ok c1 ->
+  Mxl [d + 1] (d + 1) d (emit0 OpIterationReset c1) c' -> Mx (d + 1) d c1 c'.
+Proof.
+  intros d c1 c' Hc1 (B & E2 & F2 & S2).
+  pose proof (emits_emit0 OpIterationReset c1 Hc1) as E1.
+  pose proof (emits_len _ _ _ Hc1 E1) as L1. change (lenN [OpIterationReset]) with 1 in L1.
+  exists ([OpIterationReset] ++ B). split; [eapply emits_trans; eassumption|split; [fp|]].
+  intros sm ms.
+  eapply (aseg_app (clen c1) [OpIterationReset] B (d + 1, ms) (d + 1, (d + 1) :: ms) (d, ms) noX noX noX).
+  - apply aseg_reset. lia.
+  - eapply aseg_at; [exact (S2 sm ms)|]. change (lenN [OpIterationReset]) with 1. lia.
+  - intros t n [].
+  - intros t n [].
+Qed.
 
 (* ------------------------------------------------------------------ *)
 (* PART 5: the induction on the compiler's fuel *)
@@ -1376,18 +1492,15 @@ Proof.
     cbn [cbind] in H. cbv zeta in H. injection H as <-.
     destruct (IHb g body _ c3 d Hc2 E2 Hmb) as (d1 & Hd1 & R2).
     exists d. split; [lia|].
-    exact (mc_loop d d d d1 c c1 c3 Hc (Hx_cond d c c1 Hc R1) R2 Hd1).
+    exact (mc_loop [] d d d d1 c c1 c3 Hc (Hx_cond d c c1 Hc R1) R2 Hd1).
   - (* EForeach *)
     apply andb_true_iff in Hm. destruct Hm as (Hmv & Hmb).
     rewrite compile_foreach_eq in H.
     destruct (compile_expr f v c) as [[] c1| | |] eqn:E1; try discriminate. cbn [cbind] in H.
     pose proof (IHe g v c c1 d Hc E1 Hmv) as R1. cbv zeta in H.
     assert (Hc1 : cstate_ok c1) by exact (Mx_ok _ _ _ _ R1).
-    assert (R2 : Mx (d + 1) (d + 1) c1 (emit0 OpIterationReset c1)).
-    { eapply Mx_eq; [exact (Mx_emit0 OpIterationReset c1 (d + 1) 1 1 Hc1 eq_refl eq_refl eq_refl eq_refl eq_refl
-                              ltac:(lia))|lia]. }
     set (c2 := emit0 OpIterationReset c1) in *.
-    assert (Hc2 : cstate_ok c2) by exact (Mx_ok _ _ _ _ R2).
+    assert (Hc2 : cstate_ok c2) by (eapply emits_ok; apply emits_emit0; exact Hc1).
     pose proof (Hx_foreach d idx ident c2 Hc2) as R24.
     set (c4 := emit0 OpIterationNext (emit_const (VStr ident) (emit_const (VStr idx) c2))) in *.
     assert (Hc5 : cstate_ok (emit1' OpJumpIfFalse 9999 c4)).
@@ -1396,8 +1509,8 @@ Proof.
     cbn [cbind] in H. injection H as <-.
     destruct (IHb g body _ c6 (d + 1) Hc5 E2 Hmb) as (d1 & Hd1 & R6).
     exists d. split; [lia|].
-    eapply Mx_trans; [exact Hc|exact R1|]. eapply Mx_trans; [exact Hc1|exact R2|].
-    exact (mc_loop (d + 1) (d + 1) d d1 c2 c4 c6 Hc2 R24 R6 Hd1).
+    eapply Mx_trans; [exact Hc|exact R1|]. apply (mc_foreach d c1 _ Hc1).
+    exact (mc_loop [d + 1] (d + 1) (d + 1) d d1 c2 c4 c6 Hc2 R24 R6 Hd1).
   - (* EFunction *)
     apply compile_function_inv' in H. destruct H as (c1 & E1 & ->).
     assert (Hc0 : cstate_ok (mkC [] 0 (consts c) (funcs c))) by reflexivity.
@@ -1598,31 +1711,60 @@ Proof.
   apply N.ltb_ge in Hp. rewrite Hp.
   change (match rest with j :: _ => Some j | [] => None end) with (VP.nexti rest). rewrite He.
   assert (Hfb : forallb (fun e => match ann_get a (fst e) with
-                                  | Some b => b <=? snd e
+                                  | Some b => state_le b (snd e)
                                   | None => len <=? fst e end) es = true).
   { apply forallb_forall. intros e Hin. rewrite Forall_forall in Hes. specialize (Hes e Hin).
-    unfold VP.edge_ok in Hes. destruct (ann_get a (fst e)); apply N.leb_le; exact Hes. }
+    unfold VP.edge_ok in Hes. destruct (ann_get a (fst e)); [exact Hes|apply N.leb_le; exact Hes]. }
   rewrite Hfb. apply IH; assumption.
 Qed.
 
-Definition ann_of (f : N -> N) (is : list instr) : ann := map (fun i => (iip i, f (iip i))) is.
+(* the annotation as a table: the instructions that have one, in order *)
+Fixpoint ann_of (f : pann) (is : list instr) : ann :=
+  match is with
+  | [] => []
+  | i :: rest => match f (iip i) with
+                 | Some s => (iip i, s) :: ann_of f rest
+                 | None => ann_of f rest
+                 end
+  end.
 
-Lemma ann_of_get : forall f is t,
-  (st is t -> ann_get (ann_of f is) t = Some (f t)) /\ (~ st is t -> ann_get (ann_of f is) t = None).
+Lemma ann_of_get_b : forall f is t,
+  ann_get (ann_of f is) t = if is_start is t then f t else None.
 Proof.
-  intros f is t. induction is as [|i is (IH1 & IH2)].
-  - split; [intros (i & [] & _)|reflexivity].
-  - cbn [ann_of map ann_get]. destruct (N.eqb_spec (iip i) t) as [E|E].
-    + split; [intros _; rewrite E; reflexivity|]. intro H. exfalso. apply H. apply st_cons_iff. left. exact E.
-    + split.
-      * intro H. apply st_cons_iff in H. destruct H as [H|H]; [contradiction|]. apply IH1. exact H.
-      * intro H. apply IH2. intro K. apply H. apply st_cons_iff. right. exact K.
+  intros f is t. unfold is_start. induction is as [|i is IH]; [reflexivity|].
+  cbn [ann_of existsb]. destruct (N.eqb_spec (iip i) t) as [E|E]; cbn [orb].
+  - destruct (f (iip i)) as [s|] eqn:Ef.
+    + cbn [ann_get]. apply N.eqb_eq in E. rewrite E. apply N.eqb_eq in E. rewrite <- E. symmetry. exact Ef.
+    + rewrite IH. rewrite <- E, Ef. match goal with |- (if ?c then _ else _) = _ => destruct c end; reflexivity.
+  - destruct (f (iip i)) as [s|] eqn:Ef; [|exact IH].
+    cbn [ann_get]. apply N.eqb_neq in E. rewrite E. exact IH.
 Qed.
 
-(* what `check` accepts, with the entry at depth 0 *)
+Lemma is_start_st : forall is t, is_start is t = true <-> st is t.
+Proof.
+  intros is t. unfold is_start, st. rewrite existsb_exists. split.
+  - intros (i & Hi & E). apply N.eqb_eq in E. exists i. auto.
+  - intros (i & Hi & E). exists i. split; [exact Hi|apply N.eqb_eq; exact E].
+Qed.
+
+Lemma ann_of_get : forall f is t,
+  (st is t -> ann_get (ann_of f is) t = f t) /\ (~ st is t -> ann_get (ann_of f is) t = None).
+Proof.
+  intros f is t. rewrite ann_of_get_b. split; intro H.
+  - apply is_start_st in H. rewrite H. reflexivity.
+  - destruct (is_start is t) eqn:E; [|reflexivity]. apply is_start_st in E. contradiction.
+Qed.
+
+Lemma sle_bot : forall s, sle s (0, []) -> s = (0, []).
+Proof.
+  intros [d ms] H. unfold sle, state_le in H. cbn [fst snd] in H. apply andb_true_iff in H.
+  destruct H as (H1 & H2). apply N.leb_le in H1. destruct ms; [|discriminate]. f_equal. lia.
+Qed.
+
+(* what `check` accepts, with the entry at depth 0 and no loop open *)
 Definition has_ann (consts : list value) (code : list N) : Prop :=
   exists is a, decode (S (List.length code)) code 0 [] = (VOk, is) /\
-               ann_get a 0 = Some 0 /\ check consts is is (lenN code) a = VOk.
+               ann_get a 0 = Some (0, []) /\ check consts is is (lenN code) a = VOk.
 
 Lemma body_has_ann : forall cs code, body_ok cs code -> body_ann code -> has_ann cs code.
 Proof.
@@ -1630,27 +1772,29 @@ Proof.
   pose proof (dec_decode _ _ _ D (S (List.length code)) [] (Nat.lt_succ_diag_r _)) as D'.
   cbn [rev app] in D'. rewrite D0 in D'. injection D' as ->.
   destruct is as [|i0 is'] eqn:Eis.
-  { exists [], [(0, 0)]. split; [exact D0|split; reflexivity]. }
+  { exists [], [(0, (0, []))]. split; [exact D0|split; reflexivity]. }
   rewrite <- Eis in *.
   assert (Hne : is <> []) by (rewrite Eis; discriminate).
   assert (Hs0 : st is 0) by (destruct (dec_base _ _ _ D) as [H|[_ H]]; [exact H|contradiction]).
-  assert (Hf0 : f 0 = 0) by (rewrite Eis in En; cbn [entry] in En; lia).
+  assert (Hf0 : f 0 = Some (0, [])).
+  { rewrite Eis in En; cbn [entry] in En. destruct En as (s & E & L). apply sle_bot in L. subst s. exact E. }
   set (a := ann_of f is).
   exists is, a. split; [exact D0|split].
   - unfold a. rewrite (proj1 (ann_of_get f is 0) Hs0), Hf0. reflexivity.
   - apply check_intro.
     + eapply Forall_impl; [|exact K0]. intros i (_ & H1 & H2 & H3). split; [exact H1|split; [exact H2|exact H3]].
     + assert (G : forall suf, (forall i, In i suf -> In i is) ->
-                    flows f (segP f is (0 + lenN code) dout noX) suf -> aflows a (lenN code) suf).
+                    flows f (segP f is (0 + lenN code) (dout, []) noX) suf -> aflows a (lenN code) suf).
       { induction suf as [|i suf IH]; intros Hin Hfl; [exact I|].
-        cbn [flows aflows] in *. destruct Hfl as ((Hp & es & He & Hes) & Hfl). split.
+        cbn [flows aflows] in *. destruct Hfl as (Hi & Hfl). split.
         - intros d Hd.
           assert (Hsi : st is (iip i)) by (exists i; split; [apply Hin; left; reflexivity|reflexivity]).
-          unfold a in Hd. rewrite (proj1 (ann_of_get f is (iip i)) Hsi) in Hd. injection Hd as <-.
+          unfold a in Hd. rewrite (proj1 (ann_of_get f is (iip i)) Hsi) in Hd.
+          unfold iflow in Hi. rewrite Hd in Hi. destruct Hi as (Hp & es & He & Hes).
           split; [exact Hp|]. exists es. split; [exact He|].
           eapply Forall_impl; [|exact Hes]. intros [t n] HP. cbn [fst snd] in HP.
-          unfold VP.edge_ok. cbn [fst snd]. destruct HP as [(Hst & Hle)|[(Et & Hle)|[]]].
-          + unfold a. rewrite (proj1 (ann_of_get f is t) Hst). exact Hle.
+          unfold VP.edge_ok. cbn [fst snd]. destruct HP as [(Hst & (s & Es & Hle))|[(Et & Hle)|[]]].
+          + unfold a. rewrite (proj1 (ann_of_get f is t) Hst), Es. exact Hle.
           + assert (Hns : ~ st is t).
             { intro Hst. destruct (st_range _ _ _ _ D Hst) as (_ & Hlt). lia. }
             unfold a. rewrite (proj2 (ann_of_get f is t) Hns). lia.
@@ -1697,14 +1841,14 @@ Proof.
   assert (sm : sml c).
   { unfold sml. unfold cstate_ok in Hc. rewrite Hc, <- lenN_rev. exact Ef1. }
   split.
-  - exists dout. rewrite Hch. exact (S sm).
+  - exists dout. rewrite Hch. exact (S sm []).
   - assert (FAc : FA (funcs c)) by (apply F; constructor).
     unfold FA in FAc. rewrite Forall_forall in *. rewrite forallb_forall in Ef3.
     intros nf Hnf. apply (FAc nf Hnf). apply N.leb_le. exact (Ef3 nf Hnf).
 Qed.
 
-(* (B) every body compiled from a well-moded script carries an annotation, 0 at the entry,
-   that the verifier's final check accepts *)
+(* (B) every body compiled from a well-moded script carries an annotation - depth 0 and no loop
+   open at the entry - that the verifier's final check accepts *)
 Theorem compiled_has_annotation : forall fuel (ast : program) p,
   well_moded ast = true -> compile_program fuel ast = CompOk p ->
   has_ann (pconsts p) (pmain p) /\
@@ -1744,8 +1888,8 @@ Proof.
   - cbn [VP.chain] in Hc. destruct fuel as [|f].
     + cbn [exec] in H. unfold fail in H. injection H as <- _. discriminate.
     + rewrite PollProofs.exec_S in H. rewrite <- Hc in H. cbn in H. injection H as <- _. discriminate.
-  - eapply (VP.sound_gen o consts funcs fns obj code (i0 :: is') a Hc Hck Hcf); [|exact H].
-    left. right. exists [], i0, is', 0. cbn [VP.chain] in Hc. destruct Hc as (H0 & _).
+  - eapply (VP.sound_gen o consts funcs fns obj code (i0 :: is') a (VP.kinds (menv m)) Hc Hck Hcf); [|exact H].
+    left. right. exists [], i0, is', 0, []. cbn [VP.chain] in Hc. destruct Hc as (H0 & _).
     repeat split; auto. lia.
 Qed.
 
@@ -1812,11 +1956,15 @@ Fixpoint calls_push (fuel : nat) (code : list N) (ip : N) (m : mstate) : Prop :=
 
 Section Body.
 Variables (code : list N) (is : list instr) (a : ann).
+(* the scopes that were open when the body was entered *)
+Variable base : list skind.
 Hypothesis Hchain : VP.chain code 0 is.
 Hypothesis Hcheck : check consts is is (lenN code) a = VOk.
 
-Notation good := (VP.good code is a).
-Notation Inv := (VP.Inv code is a).
+Notation good := (VP.good code is a base).
+Notation egood := (VP.egood code is a base).
+Notation Inv := (VP.Inv code is a base).
+Notation kinds := VP.kinds.
 
 Lemma start_split' : forall t, is_start is t = true -> exists pre i rest, is = pre ++ i :: rest /\ iip i = t.
 Proof.
@@ -1825,19 +1973,19 @@ Proof.
   exists pre, i, rest. split; [reflexivity|exact E].
 Qed.
 
-Lemma flow_good' : forall pre i rest d,
-  is = pre ++ i :: rest -> ann_get a (iip i) = Some d ->
-  pops i <= d /\ exists es, edges i (VP.nexti rest) d = Some es /\ Forall (fun e => good (fst e) (snd e)) es.
+Lemma flow_good' : forall pre i rest st,
+  is = pre ++ i :: rest -> ann_get a (iip i) = Some st ->
+  pops i <= fst st /\ exists es, edges i (VP.nexti rest) st = Some es /\ Forall egood es.
 Proof.
-  intros pre i rest d E Ha.
+  intros pre i rest st E Ha.
   destruct (VP.check_spec _ _ _ _ _ Hcheck pre i rest E) as (S & F).
-  destruct (F d Ha) as (Hp & es & He & Hes). split; [exact Hp|]. exists es. split; [exact He|].
+  destruct (F st Ha) as (Hp & es & He & Hes). split; [exact Hp|]. exists es. split; [exact He|].
   assert (T : Forall (fun e => VP.startish code is (fst e)) es).
   { destruct S as (S1 & _ & _).
     pose proof (VP.next_startish _ _ Hchain _ _ _ E) as Nx.
     pose proof (VP.at_chain _ _ Hchain _ _ _ E) as C. cbn [VP.chain] in C.
     destruct C as (_ & _ & _ & _ & Hl & _ & C).
-    unfold edges in He.
+    destruct st as [d ms]. unfold edges in He.
     destruct (N.eqb_spec (iop i) OpReturn) as [E1|E1]; [injection He as <-; constructor|].
     destruct (N.eqb_spec (iop i) OpJump) as [E2|E2].
     { injection He as <-. constructor; [|constructor]. cbn [fst]. right. apply start_split', S1. auto. }
@@ -1845,9 +1993,13 @@ Proof.
     { injection He as <-. constructor; [|constructor; [|constructor]]; cbn [fst].
       - rewrite E3, VP.op_len_jif in Hl. rewrite <- Hl. exact Nx.
       - right. apply start_split', S1. auto. }
+    destruct (N.eqb_spec (iop i) OpIterationReset) as [E6|E6].
+    { injection He as <-. constructor; [|constructor]. cbn [fst]. exact Nx. }
     destruct (N.eqb_spec (iop i) OpIterationNext) as [E4|E4].
     { destruct rest as [|j rest']; cbn [VP.nexti] in He; [discriminate|].
+      destruct ms as [|k ms0]; [discriminate|].
       destruct (N.eqb_spec (iop j) OpJumpIfFalse) as [E5|E5]; [|discriminate].
+      cbv zeta in He. destruct (N.min (d - 2) k =? 0); [discriminate|].
       injection He as <-.
       assert (Ej : is = (pre ++ [i]) ++ j :: rest') by (rewrite <- app_assoc; exact E).
       destruct (VP.check_spec _ _ _ _ _ Hcheck _ j rest' Ej) as ((Sj & _ & _) & _).
@@ -1857,18 +2009,18 @@ Proof.
       rewrite E5, VP.op_len_jif in Hlj. rewrite Hlj in Nj.
       constructor; [|constructor; [|constructor]]; cbn [fst]; [exact Nj|]. right. apply start_split', Sj. auto. }
     injection He as <-. constructor; [|constructor]. cbn [fst]. exact Nx. }
-  rewrite Forall_forall in *. intros [t n] Hin. cbn [fst snd].
+  rewrite Forall_forall in *. intros e Hin.
   apply VP.edge_good; [apply (Hes _ Hin)|apply (T _ Hin)].
 Qed.
 
 (* what one instruction may do, from a state the annotation covers *)
 Definition iok (i : instr) (m : mstate) (r : OS.ires) : Prop :=
   match r with
-  | OS.IFin out _ => out <> OErr EInternal
+  | OS.IFin out m' => out <> OErr EInternal /\ (forall v, out = ODone v -> menv m' = menv m)
   | OS.IFall m' =>
       (iop i = OpCall -> lenN (stk m') + iarg i = lenN (stk m)) -> Inv (iip i + ilen i) m'
-  | OS.IJump m' => good (iarg i) (lenN (stk m')) /\ iarg i < lenN code
-  | OS.ICall _ _ s => good (iip i + ilen i) (lenN s + 1)
+  | OS.IJump m' => good (iarg i) (lenN (stk m')) (kinds (menv m')) /\ iarg i < lenN code
+  | OS.ICall _ _ s => good (iip i + ilen i) (lenN s + 1) (kinds (menv m))
   end.
 
 Ltac ev_goal :=
@@ -1904,38 +2056,106 @@ Ltac crunch_res :=
           end);
   cbv beta iota zeta.
 
-Ltac use_good :=
+(* the scopes of the new environment are those the edge expects *)
+Ltac kinds_tac :=
+  cbn [menv]; rewrite ?VP.kinds_declare2, ?VP.kinds_env_declare, ?VP.kinds_env_set, ?VP.kinds_env_push;
+  cbn [VP.marks_ok];
+  first [ assumption | split; [lens|assumption] ].
+
+Ltac use_edge t :=
   match goal with
-  | G : VP.good _ _ _ ?t _ |- VP.good _ _ _ ?t _ => eapply VP.good_mono; [exact G|lens]
+  | G : VP.egood _ _ _ _ (t, _) |- _ => unfold VP.egood in G; cbn [fst snd] in G; apply G; [lens|kinds_tac]
   end.
+
+Ltac fin_tac := split; [ni|let v := fresh in let X := fresh in intros v X; try discriminate X; reflexivity].
 
 Ltac leaf :=
   lazymatch goal with
-  | |- iok _ _ (OS.IFall _) =>
-      unfold iok; cbn [iip iop iarg ilen]; intros _; left; unfold push, set_stk; cbn [stk]; use_good
+  | |- iok ?i _ (OS.IFall _) =>
+      unfold iok; cbn [iip iop iarg ilen]; intros _; left; unfold push, set_stk, set_env; cbn [stk menv];
+      lazymatch goal with |- VP.good _ _ _ _ ?t _ _ => use_edge t end
   | |- iok _ _ (OS.IJump _) =>
-      unfold iok; cbn [iip iop iarg ilen]; split; [unfold push, set_stk; cbn [stk]; use_good|assumption]
-  | |- iok _ _ (OS.IFin _ _) => unfold iok, fail; ni
+      unfold iok; cbn [iip iop iarg ilen]; split; [unfold push, set_stk, set_env; cbn [stk menv];
+      lazymatch goal with |- VP.good _ _ _ _ ?t _ _ => use_edge t end|assumption]
+  | |- iok _ _ (OS.IFin _ _) => unfold iok, fail, set_stk, set_env; cbn [menv]; fin_tac
   end.
 
 Lemma host_call_ni : forall k args, host_call k args = Err EInternal -> False.
 Proof. intros k args. destruct k; discriminate. Qed.
 
-Lemma instr_good : forall pre i rest d m,
-  is = pre ++ i :: rest -> ann_get a (iip i) = Some d -> d <= lenN (stk m) ->
+(* IterationNext; JumpIfFalse *)
+Lemma instr_iter : forall pre i rest d bs m,
+  is = pre ++ i :: rest -> iop i = OpIterationNext -> ann_get a (iip i) = Some (d, bs) -> d <= lenN (stk m) ->
+  VP.marks_ok base bs (kinds (menv m)) ->
   iok i m (OS.instr o consts fns obj (iop i) (iarg i) m).
 Proof.
-  intros pre i rest d m E Ha Hd.
+  intros pre i rest d bs m E Ei Ha Hd Hm.
+  pose proof (VP.at_chain _ _ Hchain _ _ _ E) as C. cbn [VP.chain] in C.
+  destruct C as (_ & Hlt & Hk & Hb & Hl & Hop & Hnext).
+  destruct (flow_good' _ _ _ _ E Ha) as (Hp & es & He & Hg). cbn [fst] in Hp.
+  unfold OS.instr. cbv beta zeta.
+  destruct i as [ip0 op arg ln]. destruct m as [st en tr po].
+  cbn [iip iop iarg ilen stk menv trace polls] in *. subst op.
+  vm_compute in Hl; subst ln.
+  cbv [edges pops pushes iip iop iarg ilen] in He, Hp; ev_in He; ev_in Hp.
+  ev_goal.
+  destruct rest as [|j rest']; cbn [VP.nexti] in He; [discriminate|].
+  destruct bs as [|k ms0]; [discriminate|].
+  destruct j as [jip jop jarg jlen]. cbv beta iota in He.
+  destruct (N.eqb_spec jop OpJumpIfFalse) as [Ej|Ej]; [|discriminate]. subst jop.
+  destruct (N.eqb_spec (N.min (d - 2) k) 0) as [Eb|Eb]; [discriminate|].
+  injection He as <-. apply VP.Forall_2 in Hg. destruct Hg as [Hg Hg2].
+  cbn [VP.chain iip] in Hnext. destruct Hnext as (Hj & _). subst jip.
+  set (j := mkI (ip0 + 1) OpJumpIfFalse jarg jlen) in *.
+  assert (Es : is = (pre ++ [mkI ip0 OpIterationNext arg 1]) ++ j :: rest')
+    by (rewrite <- app_assoc; exact E).
+  cbn [VP.marks_ok] in Hm. destruct (kinds en) as [|[|kr] K'] eqn:EK; try contradiction.
+  destruct Hm as (Hkr & Hm).
+  destruct st as [|v1 [|v2 rest0]]; try (exfalso; lens).
+  unfold drop_residue. rewrite (VP.kinds_env_mark _ _ _ EK).
+  pose proof (VP.keep_bottom_len kr rest0) as KL.
+  set (bb := N.min (d - 2) k) in *.
+  assert (Hbb : bb <= lenN (keep_bottom kr rest0)).
+  { rewrite KL. unfold bb. rewrite VP.lenN_cons, VP.lenN_cons in Hd. lia. }
+  clearbody bb. clear KL.
+  destruct (keep_bottom kr rest0) as [|it s] eqn:Ek; [exfalso; lens|].
+  unfold VP.egood in Hg, Hg2. cbn [fst snd] in Hg, Hg2.
+  crunch_res;
+  lazymatch goal with
+  | |- iok _ _ (OS.IFall {| stk := VBool true :: ?s0; menv := _; trace := _; polls := _ |}) =>
+      unfold iok; cbn [iip iop iarg ilen]; intros _;
+      right; exists (pre ++ [mkI ip0 OpIterationNext arg 1]), j, rest', true, s0;
+      cbn [stk menv]; repeat split; [exact Es|];
+      cbv beta iota; apply Hg; [lens|];
+      rewrite ?VP.kinds_declare2, ?VP.kinds_env_declare, EK; cbn [VP.marks_ok]; split; assumption
+  | |- iok _ _ (OS.IFall {| stk := VBool false :: ?s0; menv := ?e1; trace := _; polls := _ |}) =>
+      unfold iok; cbn [iip iop iarg ilen]; intros _;
+      right; exists (pre ++ [mkI ip0 OpIterationNext arg 1]), j, rest', false, s0;
+      cbn [stk menv]; repeat split; [exact Es|];
+      cbv beta iota; apply Hg2; [lens|];
+      match goal with P : env_pop en = Some _ |- _ => rewrite (VP.kinds_env_pop _ _ _ _ P EK) end; exact Hm
+  | _ => leaf
+  end.
+Qed.
+
+Lemma instr_good : forall pre i rest d bs m,
+  is = pre ++ i :: rest -> ann_get a (iip i) = Some (d, bs) -> d <= lenN (stk m) ->
+  VP.marks_ok base bs (kinds (menv m)) ->
+  iok i m (OS.instr o consts fns obj (iop i) (iarg i) m).
+Proof.
+  intros pre i rest d bs m E Ha Hd Hm.
+  destruct (N.eq_dec (iop i) OpIterationNext) as [Ei|Ei]; [eapply instr_iter; eassumption|].
   pose proof (VP.at_chain _ _ Hchain _ _ _ E) as C. cbn [VP.chain] in C.
   destruct C as (_ & Hlt & Hk & Hb & Hl & Hop & Hnext).
   destruct (VP.check_spec _ _ _ _ _ Hcheck pre i rest E) as ((S1 & S2 & S3) & _).
-  destruct (flow_good' _ _ _ _ E Ha) as (Hp & es & He & Hg).
+  destruct (flow_good' _ _ _ _ E Ha) as (Hp & es & He & Hg). cbn [fst] in Hp.
   unfold OS.instr. cbv beta zeta.
   destruct i as [ip0 op arg ln]. destruct m as [st en tr po].
   cbn [iip iop iarg ilen stk menv trace polls] in *.
   unfold known_ops, memN in Hk.
   repeat (apply orb_true_iff in Hk; destruct Hk as [Hk|Hk]; [apply N.eqb_eq in Hk; subst op|]);
     [..|discriminate].
+  all: try (exfalso; apply Ei; reflexivity).
   all: vm_compute in Hl; subst ln.
   all: cbv [edges pops pushes iip iop iarg ilen] in He, Hp; ev_in He; ev_in Hp.
   all: ev_goal.
@@ -1948,7 +2168,7 @@ Proof.
   all: clear S1 S2 S3.
   all: lazymatch type of Hb with
        | _ = Some OpArray =>
-           injection He as <-; apply VP.Forall_1 in Hg; cbv beta iota delta [fst snd] in Hg;
+           injection He as <-; apply VP.Forall_1 in Hg;
            let el := fresh "el" in let s' := fresh "s'" in let Ep := fresh "Ep" in let L := fresh "L" in
            destruct (VP.pop_n_ok (N.to_nat arg) st []) as (el & s' & Ep & L); [lens|];
            rewrite Ep; cbv beta iota zeta; leaf
@@ -1957,38 +2177,14 @@ Proof.
            remember ((arg + 1) / 2) as q eqn:Hq; clear Hq;
            remember (2 * q) as q2 eqn:Hq2;
            assert (Hq2' : N.to_nat q2 = (2 * N.to_nat q)%nat) by lia; clear Hq2;
-           injection He as <-; apply VP.Forall_1 in Hg; cbv beta iota delta [fst snd] in Hg;
+           injection He as <-; apply VP.Forall_1 in Hg;
            let B := fresh "B" in
            assert (B : (2 * N.to_nat q <= List.length st)%nat) by lens;
            apply (VP.build_hash_ok o _ _ []) in B;
            destruct (build_hash o (N.to_nat q) st []) as [[ps s']|e];
-           cbv beta iota zeta; [leaf|unfold iok; congruence]
-       | _ = Some OpIterationNext =>
-           let j := fresh "j" in let rest' := fresh "rest'" in
-           destruct rest as [|j rest']; cbn [VP.nexti] in He; [discriminate|];
-           let Ej := fresh "Ej" in
-           match type of He with context [if ?c then _ else _] => destruct c eqn:Ej end; [|discriminate];
-           apply N.eqb_eq in Ej; change (iop j = OpJumpIfFalse) in Ej;
-           injection He as <-;
-           apply VP.Forall_2 in Hg; cbv beta iota delta [fst snd] in Hg; destruct Hg as [Hg Hg2];
-           cbn [VP.chain] in Hnext; destruct Hnext as (Hj & _);
-           change (good (iip j + 3) (d - 3 + 1)) in Hg; rewrite Hj in Hg;
-           change (good (iarg j) (d - 3)) in Hg2;
-           assert (Es : is = (pre ++ [mkI ip0 OpIterationNext arg 1]) ++ j :: rest')
-             by (rewrite <- app_assoc; exact E);
-           destruct st as [|v1 [|v2 [|v3 s]]];
-           try (exfalso; lens);
-           crunch_res;
-           lazymatch goal with
-           | |- iok _ _ (OS.IFall {| stk := VBool ?b :: ?s0; menv := _; trace := _; polls := _ |}) =>
-               unfold iok; cbn [iip iop iarg ilen]; intros _;
-               right; exists (pre ++ [mkI ip0 OpIterationNext arg 1]), j, rest', b, s0;
-               cbn [stk]; repeat split; [exact Es|exact Hj|exact Ej|];
-               cbv beta iota; use_good
-           | _ => leaf
-           end
+           cbv beta iota zeta; [leaf|unfold iok; split; [congruence|intros ? X; discriminate X]]
        | _ = Some OpCall =>
-           injection He as <-; apply VP.Forall_1 in Hg; cbv beta iota delta [fst snd] in Hg;
+           injection He as <-; apply VP.Forall_1 in Hg; unfold VP.egood in Hg; cbn [fst snd] in Hg;
            let fname := fresh "fname" in let s0 := fresh "s0" in
            destruct st as [|fname s0]; [exfalso; lens|];
            cbv beta iota zeta;
@@ -2001,26 +2197,26 @@ Proof.
            [ destruct (call_builtin o bn args) as [r|]; [|leaf];
              let Er := fresh "Er" in destruct (of_bres r) as [v|e] eqn:Er; [|leaf];
              unfold iok; cbn [iip iop iarg ilen stk]; intro Hpush; specialize (Hpush eq_refl);
-             left; unfold set_stk in *; cbn [stk] in *; eapply VP.good_mono; [exact Hg|lens]
+             left; unfold set_stk in *; cbn [stk menv] in *; apply Hg; [lens|exact Hm]
            | let Eh := fresh "Eh" in destruct (host_call k args) as [v|e] eqn:Eh;
              [ unfold iok; cbn [iip iop iarg ilen stk]; intro Hpush; specialize (Hpush eq_refl);
-               left; unfold set_stk in *; cbn [stk] in *; eapply VP.good_mono; [exact Hg|lens]
-             | unfold iok; intro X; injection X as ->; exact (host_call_ni _ _ Eh) ]
-           | unfold iok; cbn [iip iop iarg ilen]; eapply VP.good_mono; [exact Hg|lens] ]
+               left; unfold set_stk in *; cbn [stk menv] in *; apply Hg; [lens|exact Hm]
+             | unfold iok; split; [intro X; injection X as ->; exact (host_call_ni _ _ Eh)|intros ? X; discriminate X] ]
+           | unfold iok; cbn [iip iop iarg ilen menv]; apply Hg; [lens|exact Hm] ]
        | _ =>
            injection He as <-;
-           try (apply VP.Forall_1 in Hg; cbv beta iota delta [fst snd] in Hg);
-           try (apply VP.Forall_2 in Hg; cbv beta iota delta [fst snd] in Hg; destruct Hg as [Hg Hg2]);
+           try (apply VP.Forall_1 in Hg);
+           try (apply VP.Forall_2 in Hg; destruct Hg as [Hg Hg2]);
            destruct st as [|v1 [|v2 [|v3 s]]];
            try (exfalso; lens);
            crunch_res; leaf
        end.
 Qed.
 
-
-Lemma poll_stk : forall m m1, OS.poll m = Some m1 -> stk m1 = stk m.
+Lemma poll_stk : forall m m1, OS.poll m = Some m1 -> stk m1 = stk m /\ menv m1 = menv m.
 Proof.
-  intros m m1 H. unfold OS.poll in H. destruct (polls m) as [[|p]|]; try discriminate; injection H as <-; reflexivity.
+  intros m m1 H. unfold OS.poll in H. destruct (polls m) as [[|p]|]; try discriminate; injection H as <-;
+    split; reflexivity.
 Qed.
 
 Lemma instr_jif : forall arg m,
@@ -2034,29 +2230,31 @@ Proof. intros. reflexivity. Qed.
 (* what one step may do *)
 Definition sok (ip : N) (m : mstate) (r : OS.sres) : Prop :=
   match r with
-  | OS.SFin out _ => out <> OErr EInternal
+  | OS.SFin out m' => out <> OErr EInternal /\ (forall v, out = ODone v -> VP.over base (kinds (menv m')))
   | OS.SNext ip' m' =>
       (byte_at code ip = Some OpCall -> forall arg, operand_at code ip = Some arg ->
          lenN (stk m') + arg = lenN (stk m)) -> Inv ip' m'
-  | OS.SCall _ _ s _ next => good next (lenN s + 1)
+  | OS.SCall _ _ s m1 next => good next (lenN s + 1) (kinds (menv m1))
   end.
 
 Lemma step_sound : forall ip m, Inv ip m -> sok ip m (stp code ip m).
 Proof.
   intros ip m HI. unfold OS.step.
-  destruct (lenN code <=? ip) eqn:L; [cbn [sok]; discriminate|]. apply N.leb_gt in L.
-  destruct (OS.poll m) as [m1|] eqn:Ep; [|cbn [sok]; discriminate].
-  pose proof (poll_stk _ _ Ep) as Es.
-  destruct HI as [[Hl|(pre & i & rest & d & E & Hi & Ha & Hd)]|(pre & j & rest & b & s' & E & Hj & Eop & Hs & Hgd)].
+  pose proof (VP.Inv_over _ _ _ _ _ _ HI) as Hov.
+  destruct (lenN code <=? ip) eqn:L; [cbn [sok]; split; [discriminate|intros _ _; exact Hov]|]. apply N.leb_gt in L.
+  destruct (OS.poll m) as [m1|] eqn:Ep; [|cbn [sok]; split; [discriminate|intros ? X; discriminate X]].
+  destruct (poll_stk _ _ Ep) as (Es & Ee).
+  destruct HI as [[[Hl _]|(pre & i & rest & d & bs & E & Hi & Ha & Hd & Hm)]|(pre & j & rest & b & s' & E & Hj & Eop & Hs & Hgd)].
   - lia.
   - subst ip.
     pose proof (VP.at_chain _ _ Hchain _ _ _ E) as C. cbn [VP.chain] in C.
     destruct C as (_ & _ & _ & Hb & Hl & Hop & _).
     rewrite Hb. rewrite <- Hl, Hop.
     assert (Hd1 : d <= lenN (stk m1)) by (rewrite Es; exact Hd).
-    pose proof (instr_good pre i rest d m1 E Ha Hd1) as G.
+    assert (Hm1 : VP.marks_ok base bs (kinds (menv m1))) by (rewrite Ee; exact Hm).
+    pose proof (instr_good pre i rest d bs m1 E Ha Hd1 Hm1) as G.
     destruct (OS.instr o consts fns obj (iop i) (iarg i) m1) as [out m'|m'|m'|name args s]; cbn [iok sok] in *.
-    + exact G.
+    + destruct G as (G1 & G2). split; [exact G1|]. intros v Ev. rewrite (G2 v Ev), Ee. exact Hov.
     + intro Hpush. apply G. intro Ec. rewrite Es. apply Hpush; [rewrite Ec in Hb; exact Hb|].
       rewrite Ec in Hl. change (op_len OpCall) with 3 in Hl. rewrite Hl in Hop. exact Hop.
     + destruct G as (G & Hlt). apply N.leb_gt in Hlt. rewrite Hlt. cbn [sok]. intros _. left. exact G.
@@ -2069,8 +2267,8 @@ Proof.
     rewrite Hb. rewrite <- Hl, Hop. rewrite Eop, instr_jif. rewrite Es, Hs.
     rewrite Eop in Hl. change (op_len OpJumpIfFalse) with 3 in Hl. rewrite Hl.
     destruct b; cbn [truthy].
-    + cbn [sok]. intros _. left. unfold set_stk. cbn [stk]. exact Hgd.
-    + rewrite Sj. cbn [sok]. intros _. left. unfold set_stk. cbn [stk]. exact Hgd.
+    + cbn [sok]. intros _. left. unfold set_stk. cbn [stk menv]. rewrite Ee. exact Hgd.
+    + rewrite Sj. cbn [sok]. intros _. left. unfold set_stk. cbn [stk menv]. rewrite Ee. exact Hgd.
 Qed.
 
 End Body.
@@ -2086,41 +2284,73 @@ Proof.
   - destruct (IH uf H) as (n' & Hin). exists n'. right. exact Hin.
 Qed.
 
-Lemma sound_calls_gen : forall fuel code is a,
-  VP.chain code 0 is -> check consts is is (lenN code) a = VOk ->
-  forall ip m out m', VP.Inv code is a ip m -> ex fuel code ip m = (out, m') ->
-  calls_push fuel code ip m -> out <> OErr EInternal.
+(* binding the parameters changes the contents of the frame, not the scopes *)
+Lemma kinds_declare_all : forall names vals e, VP.kinds (declare_all e names vals) = VP.kinds e.
 Proof.
-  induction fuel as [|f IH]; intros code is a Hch Hck ip m out m' HI H Hcp.
-  - cbn [exec] in H. unfold fail in H. injection H as <- _. discriminate.
+  induction names as [|n names IH]; intros vals e; [reflexivity|].
+  destruct vals as [|v vals]; [reflexivity|]. cbn [declare_all]. rewrite IH. apply VP.kinds_env_declare.
+Qed.
+
+(* closing the scopes the callee left open gives back the scopes of the caller *)
+Lemma kinds_truncate : forall e pre K,
+  VP.kinds e = pre ++ K -> VP.kinds (env_truncate e (List.length K)) = K.
+Proof.
+  intros e pre K H. unfold VP.kinds, env_truncate in *. cbn [scopes].
+  rewrite <- skipn_map, H.
+  replace (List.length (scopes e)) with (List.length (pre ++ K)) by (rewrite <- H; apply map_length).
+  rewrite app_length. replace (List.length pre + List.length K - List.length K)%nat with (List.length pre) by lia.
+  rewrite skipn_app, skipn_all, Nat.sub_diag. reflexivity.
+Qed.
+
+Lemma sound_calls_gen : forall fuel code is a base,
+  VP.chain code 0 is -> check consts is is (lenN code) a = VOk ->
+  forall ip m out m', VP.Inv code is a base ip m -> ex fuel code ip m = (out, m') ->
+  calls_push fuel code ip m ->
+  out <> OErr EInternal /\ (forall v, out = ODone v -> VP.over base (VP.kinds (menv m'))).
+Proof.
+  induction fuel as [|f IH]; intros code is a base Hch Hck ip m out m' HI H Hcp.
+  - cbn [exec] in H. unfold fail in H. injection H as <- _. split; [discriminate|intros ? X; discriminate X].
   - rewrite OS.exec_S_step in H. cbn [calls_push] in Hcp.
-    pose proof (step_sound code is a Hch Hck ip m HI) as SS.
+    pose proof (step_sound code is a base Hch Hck ip m HI) as SS.
     destruct (stp code ip m) as [out0 m0|ip' m1|name args s m1 next]; cbn [OS.run_sres sok] in *.
-    + injection H as <- _. exact SS.
-    + destruct Hcp as (Hpush & Hcp). eapply (IH code is a Hch Hck ip' m1); [exact (SS Hpush)|exact H|exact Hcp].
-    + destruct (ufunc_get name funcs) as [uf|] eqn:Eu; [|injection H as <- _; discriminate].
-      destruct (negb (Nat.eqb (List.length (fparams uf)) (List.length args))); [injection H as <- _; discriminate|].
+    + injection H as <- <-. exact SS.
+    + destruct Hcp as (Hpush & Hcp). eapply (IH code is a base Hch Hck ip' m1); [exact (SS Hpush)|exact H|exact Hcp].
+    + destruct (ufunc_get name funcs) as [uf|] eqn:Eu;
+        [|injection H as <- _; split; [discriminate|intros ? X; discriminate X]].
+      destruct (negb (Nat.eqb (List.length (fparams uf)) (List.length args)));
+        [injection H as <- _; split; [discriminate|intros ? X; discriminate X]|].
       destruct (negb (max_call_depth =? 0) && (max_call_depth <=? N.of_nat (env_depth (menv m1))));
-        [injection H as <- _; discriminate|].
+        [injection H as <- _; split; [discriminate|intros ? X; discriminate X]|].
       cbv zeta in Hcp. destruct Hcp as (Hcc & Hcp).
       set (mc := mkM [] (declare_all (env_push_frame (menv m1)) (fparams uf) args) (trace m1) (polls m1)) in *.
       (* the callee *)
       destruct (ufunc_get_in _ _ _ Eu) as (n & Hin).
       rewrite Forall_forall in Hfuncs. pose proof (Hfuncs _ Hin) as (isc & ac & Dc & Hac & Hckc). cbn [snd] in *.
       pose proof (VP.decode_ok_chain _ _ Dc) as Hchc.
-      assert (HIc : VP.Inv (fcode uf) isc ac 0 mc).
+      set (basec := SFrame :: VP.kinds (menv m1)).
+      assert (Hkc : VP.kinds (menv mc) = basec).
+      { unfold mc. cbn [menv]. rewrite kinds_declare_all. reflexivity. }
+      assert (HIc : VP.Inv (fcode uf) isc ac basec 0 mc).
       { left. destruct isc as [|i0 isc'].
-        - left. cbn [VP.chain] in Hchc. lia.
-        - right. exists [], i0, isc', 0. cbn [VP.chain] in Hchc. destruct Hchc as (H0 & _).
+        - left. cbn [VP.chain] in Hchc. split; [lia|]. exists []. exact Hkc.
+        - right. exists [], i0, isc', 0, []. cbn [VP.chain] in Hchc. destruct Hchc as (H0 & _).
           repeat split; auto. unfold mc. cbn [stk]. unfold lenN. cbn. lia. }
       destruct (ex f (fcode uf) 0 mc) as [[outc|e] m2] eqn:Ec.
       * destruct Hcp as (Hnv & Hcp).
         assert (Hst : (match outc with VVoid => s | _ => outc :: s end) = outc :: s)
           by (destruct outc; try reflexivity; contradiction).
         rewrite Hst in H.
-        eapply (IH code is a Hch Hck next _); [|exact H|exact Hcp].
-        left. cbn [stk]. eapply VP.good_mono; [exact SS|]. rewrite lenN_cons. lia.
-      * injection H as <- _. exact (IH _ _ _ Hchc Hckc 0 mc _ _ HIc Ec Hcc).
+        destruct (IH _ _ _ basec Hchc Hckc 0 mc _ _ HIc Ec Hcc) as (_ & Hovc).
+        destruct (Hovc outc eq_refl) as (ks & Hks).
+        assert (Hk2 : VP.kinds (env_truncate (menv m2) (env_depth (menv m1))) = VP.kinds (menv m1)).
+        { unfold env_depth. replace (List.length (scopes (menv m1))) with (List.length (VP.kinds (menv m1)))
+            by (apply map_length).
+          apply (kinds_truncate _ (map SLoop ks ++ [SFrame])). rewrite Hks. unfold basec.
+          rewrite <- app_assoc. reflexivity. }
+        eapply (IH code is a base Hch Hck next _); [|exact H|exact Hcp].
+        left. cbn [stk menv]. rewrite Hk2. eapply VP.good_mono; [exact SS|]. rewrite VP.lenN_cons. lia.
+      * injection H as <- _. split; [|intros ? X; discriminate X].
+        exact (proj1 (IH _ _ _ basec Hchc Hckc 0 mc _ _ HIc Ec Hcc)).
 Qed.
 
 (* (A) the verifier is sound for bodies with calls: an accepted body, every callable function
@@ -2132,10 +2362,11 @@ Theorem verifier_sound_calls : forall code, has_ann consts code ->
 Proof.
   intros code (is & a & D & Ha & Hck) fuel m out m' Hs H Hcp.
   pose proof (VP.decode_ok_chain _ _ D) as Hch.
-  eapply (sound_calls_gen fuel code is a Hch Hck 0 m); [|exact H|exact Hcp].
+  eapply (proj1 (sound_calls_gen fuel code is a (VP.kinds (menv m)) Hch Hck 0 m out m' _ H Hcp)).
+  Unshelve.
   left. destruct is as [|i0 is'].
-  - left. cbn [VP.chain] in Hch. lia.
-  - right. exists [], i0, is', 0. cbn [VP.chain] in Hch. destruct Hch as (H0 & _).
+  - left. cbn [VP.chain] in Hch. split; [lia|]. exists []. reflexivity.
+  - right. exists [], i0, is', 0, []. cbn [VP.chain] in Hch. destruct Hch as (H0 & _).
     repeat split; auto. lia.
 Qed.
 
@@ -2149,9 +2380,9 @@ Lemma verify_body_has_ann : forall consts isf code, verify_body consts isf code 
 Proof.
   intros consts isf code H. destruct (VP.verify_body_inv _ _ _ H) as (is & D & R).
   destruct R as [[-> _]|(_ & _ & a & Hf & Hck)].
-  - exists [], [(0, 0)]. split; [exact D|split; reflexivity].
+  - exists [], [(0, (0, []))]. split; [exact D|split; reflexivity].
   - exists is, a. split; [exact D|split; [|exact Hck]].
-    exact (VP.flow_entry0 _ _ _ _ (eq_refl : VP.entry0 [(0, 0)]) Hf).
+    exact (VP.flow_entry0 _ _ _ _ (eq_refl : VP.entry0 [(0, (0, []))]) Hf).
 Qed.
 
 Lemma verify_program_has_ann : forall p, verify_program p = VOk ->
